@@ -1180,4 +1180,1691 @@ def raBad (G : Grp) (n : Nat) (Cj : List Int) (s : List (Tag × Int)) : Bool :=
   | .ok r => decide (0 < r.1)
   | .error _ => true
 
+theorem ag_gaList_total (hG : ValidGrp G) (s : List Int) (hs : InR G.q s) : ∃ r, gaList G s = .ok r := by
+  induction s with
+  | nil => exact ⟨[], rfl⟩
+  | cons a s ih =>
+    obtain ⟨x, hx, -⟩ := fspowm_g hG a (hs a (by simp))
+    obtain ⟨r, hr⟩ := ih (fun y hy => hs y (List.mem_cons_of_mem _ hy))
+    exact ⟨x :: r, by simp only [gaList, hx, hr, bind, Except.bind, pure, Except.pure]⟩
+
+/-- the shares stored in step 1(d) are in range -/
+theorem ag_genReadAnswers_InR (hq : 0 < G.q) (st : GenSt) (j : Nat) (f : Nat) (I : Inbox) (s sp : List Int)
+    (cm : List Nat) (r : Inbox × List Int × List Int × List Nat)
+    (h : genReadAnswers G st j f I s sp cm = .ok r) (hs : InR G.q s) : InR G.q r.2.1 := by
+  induction f generalizing I s sp cm with
+  | zero =>
+    simp only [genReadAnswers] at h
+    injection h with h
+    rw [← h]; exact hs
+  | succ f ih =>
+    unfold genReadAnswers at h
+    rcases hp1 : I.popB none j with ⟨_ | w, I1⟩
+    · rw [hp1] at h
+      injection h with h
+      rw [← h]; exact hs
+    · rw [hp1] at h
+      simp only at h
+      split at h
+      · injection h with h
+        rw [← h]; exact hs
+      · rcases hp2 : I1.popB none j with ⟨_ | foo0, I2⟩
+        · rw [hp2] at h
+          injection h with h
+          rw [← h]; exact hs
+        · rw [hp2] at h
+          simp only at h
+          rcases hp3 : I2.popB none j with ⟨_ | bar0, I3⟩
+          · rw [hp3] at h
+            injection h with h
+            rw [← h]; exact hs
+          · rw [hp3] at h
+            simp only [ag_ite_pair] at h
+            obtain ⟨lhs, -, h⟩ := ag_bind_ok _ _ _ h
+            obtain ⟨rhs, -, h⟩ := ag_bind_ok _ _ _ h
+            split at h
+            · exact ih _ _ _ _ h hs
+            · split at h
+              · exact ih _ _ _ _ h (ag_InR_set G.q s j _ hs (ag_absGe_range G.q hq foo0))
+              · exact ih _ _ _ _ h hs
+
+/-- `answeredOf` on one stream -/
+def anS (n : Nat) : Nat → List (Tag × Int) → List Nat → List Nat
+  | 0, _, acc => acc
+  | f + 1, s, acc =>
+    match popS none s with
+    | (none, _) => acc
+    | (some w, s1) =>
+      if getUi w ≥ n then acc
+      else
+        match popS none s1 with
+        | (none, _) => acc ++ [getUi w]
+        | (some _, s2) =>
+          match popS none s2 with
+          | (none, _) => acc ++ [getUi w]
+          | (some _, s3) => anS n f s3 (acc ++ [getUi w])
+
+theorem ag_answeredOf (n j f : Nat) (I : Inbox) (hj : j < I.b.length) (acc : List Nat) :
+    answeredOf n j f I acc = anS n f (bsOf I j) acc := by
+  induction f generalizing I acc with
+  | zero => rfl
+  | succ f ih =>
+    unfold answeredOf anS
+    rw [ag_popB]
+    rcases hp1 : popS none (bsOf I j) with ⟨_ | w, s1⟩
+    · rfl
+    · simp only
+      split
+      · rfl
+      · rw [ag_popB, ag_bsOf_setB_self I j s1 hj, ag_setB_setB]
+        rcases hp2 : popS none s1 with ⟨_ | foo, s2⟩
+        · rfl
+        · simp only
+          rw [ag_popB, ag_bsOf_setB_self I j s2 hj, ag_setB_setB]
+          rcases hp3 : popS none s2 with ⟨_ | bar, s3⟩
+          · rfl
+          · simp only
+            rw [ih (setB I j s3) (by simpa using hj), ag_bsOf_setB_self I j s3 hj]
+
+/-- whether dealer `k` (stream `s`) left a complainer without an answer -/
+def unB (st : GenSt) (k : Nat) (s : List (Tag × Int)) : Bool :=
+  (st.complainers.getD k []).any (fun c => !(anS st.n (st.n + 1) s []).contains c)
+
+theorem ag_mem_unanswered (st : GenSt) (j : Nat) (I : Inbox) (hj : j < I.b.length) (x : Nat) :
+    x ∈ unanswered st j I ↔ x = j ∧ unB st j (bsOf I j) = true := by
+  unfold unanswered unB
+  rw [ag_answeredOf _ _ _ _ hj]
+  simp only [List.mem_map, List.mem_filter, List.any_eq_true]
+  constructor
+  · rintro ⟨c, ⟨h1, h2⟩, rfl⟩
+    exact ⟨rfl, c, h1, h2⟩
+  · rintro ⟨rfl, c, h1, h2⟩
+    exact ⟨c, ⟨h1, h2⟩, rfl⟩
+
+/-- step 1(d): the loop over the dealers -/
+theorem ag_genResolveGo (hG : ValidGrp G) (st : GenSt) (L : List Nat) (hL : L.Nodup) (I : Inbox)
+    (hI : ∀ j ∈ L, j < I.b.length) (s sp : List Int) (cm : List Nat) :
+    ∃ I' s' sp' cm', genResolveGo G st L I s sp cm = .ok (I', s', sp', cm') ∧ (InR G.q s → InR G.q s') ∧
+      ∀ k, k ∈ cm' ↔ k ∈ cm ∨ (k ∈ L ∧ (st.t < getN st.cnt k ∨
+        (k ≠ st.i ∧ (raBad G st.n (getRow st.C k) (bsOf I k) = true ∨ unB st k (bsOf I k) = true)))) := by
+  induction L generalizing I s sp cm with
+  | nil => exact ⟨I, s, sp, cm, rfl, id, by simp⟩
+  | cons j rest ih =>
+    have hnd := List.nodup_cons.mp hL
+    have hIr : ∀ k ∈ rest, k < I.b.length := fun k hk => hI k (List.mem_cons_of_mem _ hk)
+    unfold genResolveGo
+    by_cases hc : getN st.cnt j > st.t
+    · simp only [hc, if_true]
+      obtain ⟨I', s', sp', cm', h, hin, hm⟩ := ih hnd.2 I hIr s sp (cm ++ [j])
+      refine ⟨I', s', sp', cm', h, hin, ?_⟩
+      intro k
+      rw [hm k]
+      by_cases hkj : k = j
+      · subst hkj
+        simp [hc]
+      · simp [hkj]
+    · simp only [hc, if_false]
+      by_cases hji : j = st.i
+      · simp only [hji, if_true]
+        obtain ⟨I', s', sp', cm', h, hin, hm⟩ := ih hnd.2 I hIr s sp cm
+        refine ⟨I', s', sp', cm', h, hin, ?_⟩
+        intro k
+        rw [hm k]
+        by_cases hkj : k = j
+        · subst hkj
+          have : k ∉ rest := hnd.1
+          have hc' : ¬ st.t < getN st.cnt st.i := by rw [← hji]; exact hc
+          simp [hji, hc']
+        · have hkj' : ¬ k = st.i := fun e => hkj (e.trans hji.symm)
+          simp [hkj']
+      · simp only [hji, if_false]
+        obtain ⟨⟨bad, rst⟩, hr⟩ := ag_raS_total hG st.n (getRow st.C j) (st.n + 1) (bsOf I j)
+        have hra := ag_genReadAnswers (G := G) st j (st.n + 1) I (hI j (by simp)) s sp cm
+        rw [hr] at hra
+        obtain ⟨s1, sp1, hra⟩ := hra
+        obtain ⟨I', s', sp', cm', h, hin, hm⟩ := ih hnd.2 (setB I j rst)
+          (fun k hk => by simpa using hIr k hk) s1 sp1 (cm ++ List.replicate bad j ++ unanswered st j I)
+        have hin1 : InR G.q s → InR G.q s1 := fun hs =>
+          ag_genReadAnswers_InR hG.vg.q_pos st j (st.n + 1) I s sp cm _ hra hs
+        refine ⟨I', s', sp', cm', ?_, fun hs => hin (hin1 hs), ?_⟩
+        · simp only [hra, bind, Except.bind]
+          exact h
+        · intro k
+          rw [hm k]
+          by_cases hkj : k = j
+          · subst hkj
+            have : k ∉ rest := hnd.1
+            simp [this, hc, hji, raBad, hr, List.mem_replicate, ag_mem_unanswered st k I (hI k (by simp)),
+              Nat.pos_iff_ne_zero]
+          · have hb : bsOf (setB I j rst) k = bsOf I k := ag_bsOf_setB_ne _ _ _ _ (Ne.symm hkj)
+            simp [hkj, hb, List.mem_replicate, ag_mem_unanswered st j I (hI j (by simp))]
+
+/-- the test of equation (4) for dealer `k` -/
+def chk4 (G : Grp) (i : Nat) (C : List (List Int)) (s sp : List Int) (k : Nat) : Bool :=
+  match pedS G (getI s k) (getI sp k), commitProd G.p (i + 1) (getRow C k) with
+  | .ok lhs, .ok rhs => lhs.2 != rhs
+  | _, _ => true
+
+theorem ag_getI_InR (q : Int) (hq : 0 < q) (l : List Int) (hl : InR q l) (k : Nat) : (getI l k).natAbs < q.natAbs := by
+  unfold getI
+  by_cases hk : k < l.length
+  · rw [List.getD_eq_getElem _ _ hk]
+    exact hl _ (List.getElem_mem hk)
+  · rw [List.getD_eq_default _ _ (by omega)]
+    simp; omega
+
+/-- step 1(b), equation (4): the loop over the dealers -/
+theorem ag_genCheck4 (hG : ValidGrp G) (st : GenSt) (C : List (List Int)) (s sp : List Int)
+    (hs : InR G.q s) (hsp : InR G.q sp) (L : List Nat) (gs : List Int) (cm : List Nat) :
+    ∃ gs' cm', genCheck4 G st C s sp L gs cm = .ok (gs', cm') ∧
+      ∀ k, k ∈ cm' ↔ k ∈ cm ∨ (k ∈ L ∧ chk4 G st.i C s sp k = true) := by
+  induction L generalizing gs cm with
+  | nil => exact ⟨gs, cm, rfl, by simp⟩
+  | cons j rest ih =>
+    obtain ⟨a, l, hped, -⟩ := pedS_val hG (getI s j) (getI sp j)
+      (ag_getI_InR G.q hG.vg.q_pos s hs j) (ag_getI_InR G.q hG.vg.q_pos sp hsp j)
+    obtain ⟨r, hr⟩ := ag_commitProd_total hG (st.i + 1) (getRow C j)
+    obtain ⟨gs', cm', h, hm⟩ := ih (gs.set j a) (if (l != r) = true then cm ++ [j] else cm)
+    refine ⟨gs', cm', ?_, ?_⟩
+    · unfold genCheck4
+      simp only [hped, hr, bind, Except.bind]
+      exact h
+    · intro k
+      rw [hm k]
+      by_cases hkj : k = j
+      · subst hkj
+        by_cases hlr : (l != r) = true
+        · simp [chk4, hped, hr, hlr]
+        · simp [chk4, hped, hr, hlr]
+      · split <;> simp [hkj]
+
+/-! the complaint counters -/
+
+theorem ag_bumpL_length (cnt ws : List Nat) : (bumpL cnt ws).length = cnt.length := by
+  induction ws generalizing cnt with
+  | nil => rfl
+  | cons w ws ih =>
+    simp only [bumpL, List.foldl_cons] at ih ⊢
+    rw [ih]
+    simp
+
+theorem ag_bumpL_getN (cnt ws : List Nat) (x : Nat) (hx : x < cnt.length) :
+    getN (bumpL cnt ws) x = getN cnt x + ws.count x := by
+  induction ws generalizing cnt with
+  | nil => simp [bumpL]
+  | cons w ws ih =>
+    have h := ih (cnt.set w (getN cnt w + 1)) (by simpa using hx)
+    simp only [bumpL, List.foldl_cons] at h ⊢
+    rw [h, ag_getN_set, List.count_cons]
+    by_cases hwx : w = x
+    · subst hwx
+      simp [hx]
+      omega
+    · simp [hwx]
+
+def rcNews (n : Nat) (s : List (Tag × Int)) : List Nat := (rcS n (n + 1) 0 [] s).1
+def rcBad (n : Nat) (s : List (Tag × Int)) : Bool := decide (0 < (rcS n (n + 1) 0 [] s).2.1)
+def rcRest (n : Nat) (s : List (Tag × Int)) : List (Tag × Int) := (rcS n (n + 1) 0 [] s).2.2
+
+theorem ag_genCollectGo_cons (st : GenSt) (j : Nat) (rest : List Nat) (I : Inbox) (hj : j < I.b.length)
+    (hji : j ≠ st.i) (cnt cf cm : List Nat) :
+    genCollectGo st (j :: rest) I cnt cf cm =
+      genCollectGo st rest (setB I j (rcRest st.n (bsOf I j))) (bumpL cnt (rcNews st.n (bsOf I j)))
+        (cf ++ ((rcNews st.n (bsOf I j)).filter (fun w => w = st.i)).map (fun _ => j))
+        (cm ++ List.replicate (rcS st.n (st.n + 1) 0 [] (bsOf I j)).2.1 j) := by
+  rw [genCollectGo]
+  simp only [hji, if_false]
+  rw [ag_genReadComplaints st j (st.n + 1) 0 [] I hj]
+  rfl
+
+/-- step 1(c): lengths -/
+theorem ag_genCollectGo_glob (st : GenSt) (L : List Nat) (I : Inbox) (hI : ∀ j ∈ L, j < I.b.length)
+    (cnt cf cm : List Nat) :
+    (genCollectGo st L I cnt cf cm).1.b.length = I.b.length ∧ (genCollectGo st L I cnt cf cm).1.p = I.p ∧
+    (genCollectGo st L I cnt cf cm).2.1.length = cnt.length := by
+  induction L generalizing I cnt cf cm with
+  | nil => simp [genCollectGo]
+  | cons j rest ih =>
+    by_cases hji : j = st.i
+    · rw [genCollectGo]
+      simp only [hji, if_true]
+      exact ih I (fun k hk => hI k (List.mem_cons_of_mem _ hk)) cnt cf cm
+    · rw [ag_genCollectGo_cons st j rest I (hI j (by simp)) hji]
+      obtain ⟨h1, h2, h3⟩ := ih (setB I j (rcRest st.n (bsOf I j)))
+        (fun k hk => by simpa using hI k (List.mem_cons_of_mem _ hk))
+        (bumpL cnt (rcNews st.n (bsOf I j)))
+        (cf ++ ((rcNews st.n (bsOf I j)).filter (fun w => w = st.i)).map (fun _ => j))
+        (cm ++ List.replicate (rcS st.n (st.n + 1) 0 [] (bsOf I j)).2.1 j)
+      exact ⟨by rw [h1]; simp, by rw [h2]; rfl, by rw [h3, ag_bumpL_length]⟩
+
+/-- step 1(c): a sender that is not read -/
+theorem ag_genCollectGo_frame (st : GenSt) (k : Nat) (L : List Nat) (I : Inbox) (hI : ∀ j ∈ L, j < I.b.length)
+    (cnt cf cm : List Nat) (hk : k ∉ L ∨ k = st.i) :
+    bsOf (genCollectGo st L I cnt cf cm).1 k = bsOf I k ∧
+    (k ∈ (genCollectGo st L I cnt cf cm).2.2.2 ↔ k ∈ cm) := by
+  induction L generalizing I cnt cf cm with
+  | nil => simp [genCollectGo]
+  | cons j rest ih =>
+    have hk' : k ∉ rest ∨ k = st.i := by
+      rcases hk with h | h
+      · exact Or.inl (fun hh => h (List.mem_cons_of_mem _ hh))
+      · exact Or.inr h
+    by_cases hji : j = st.i
+    · rw [genCollectGo]
+      simp only [hji, if_true]
+      exact ih I (fun k hk => hI k (List.mem_cons_of_mem _ hk)) cnt cf cm hk'
+    · rw [ag_genCollectGo_cons st j rest I (hI j (by simp)) hji]
+      have hkj : j ≠ k := by
+        rintro rfl
+        rcases hk with h | h
+        · exact h (by simp)
+        · exact hji h
+      obtain ⟨h1, h2⟩ := ih (setB I j (rcRest st.n (bsOf I j)))
+        (fun k hk => by simpa using hI k (List.mem_cons_of_mem _ hk))
+        (bumpL cnt (rcNews st.n (bsOf I j)))
+        (cf ++ ((rcNews st.n (bsOf I j)).filter (fun w => w = st.i)).map (fun _ => j))
+        (cm ++ List.replicate (rcS st.n (st.n + 1) 0 [] (bsOf I j)).2.1 j) hk'
+      refine ⟨by rw [h1, ag_bsOf_setB_ne _ _ _ _ hkj], ?_⟩
+      rw [h2]
+      simp [List.mem_append, List.mem_replicate, Ne.symm hkj]
+
+/-- step 1(c): a sender that is read -/
+theorem ag_genCollectGo_hit (st : GenSt) (k : Nat) (L : List Nat) (hL : L.Nodup) (I : Inbox)
+    (hI : ∀ j ∈ L, j < I.b.length) (cnt cf cm : List Nat) (hk : k ∈ L) (hki : k ≠ st.i) :
+    bsOf (genCollectGo st L I cnt cf cm).1 k = rcRest st.n (bsOf I k) ∧
+    (k ∈ (genCollectGo st L I cnt cf cm).2.2.2 ↔ k ∈ cm ∨ rcBad st.n (bsOf I k) = true) := by
+  induction L generalizing I cnt cf cm with
+  | nil => simp at hk
+  | cons j rest ih =>
+    have hnd := List.nodup_cons.mp hL
+    by_cases hji : j = st.i
+    · rw [genCollectGo]
+      simp only [hji, if_true]
+      have hk2 : k ∈ rest := by
+        rcases List.mem_cons.mp hk with h | h
+        · exact absurd (h.trans hji) hki
+        · exact h
+      exact ih hnd.2 I (fun k hk => hI k (List.mem_cons_of_mem _ hk)) cnt cf cm hk2
+    · rw [ag_genCollectGo_cons st j rest I (hI j (by simp)) hji]
+      have hI' : ∀ k ∈ rest, k < (setB I j (rcRest st.n (bsOf I j))).b.length :=
+        fun k hk => by simpa using hI k (List.mem_cons_of_mem _ hk)
+      rcases List.mem_cons.mp hk with h | h
+      · subst h
+        obtain ⟨h1, h2⟩ := ag_genCollectGo_frame st k rest _ hI'
+          (bumpL cnt (rcNews st.n (bsOf I k)))
+          (cf ++ ((rcNews st.n (bsOf I k)).filter (fun w => w = st.i)).map (fun _ => k))
+          (cm ++ List.replicate (rcS st.n (st.n + 1) 0 [] (bsOf I k)).2.1 k) (Or.inl hnd.1)
+        refine ⟨by rw [h1, ag_bsOf_setB_self _ _ _ (hI k (by simp))], ?_⟩
+        rw [h2]
+        simp [List.mem_append, List.mem_replicate, rcBad, Nat.pos_iff_ne_zero]
+      · have hkj : j ≠ k := by
+          rintro rfl
+          exact hnd.1 h
+        obtain ⟨h1, h2⟩ := ih hnd.2 (setB I j (rcRest st.n (bsOf I j))) hI'
+          (bumpL cnt (rcNews st.n (bsOf I j)))
+          (cf ++ ((rcNews st.n (bsOf I j)).filter (fun w => w = st.i)).map (fun _ => j))
+          (cm ++ List.replicate (rcS st.n (st.n + 1) 0 [] (bsOf I j)).2.1 j) h
+        rw [ag_bsOf_setB_ne _ _ _ _ hkj] at h1 h2
+        refine ⟨h1, ?_⟩
+        rw [h2]
+        simp [List.mem_append, List.mem_replicate, Ne.symm hkj]
+
+/-- step 1(c): the counters after the loop -/
+theorem ag_genCollectGo_cnt (st : GenSt) (L : List Nat) (hL : L.Nodup) (I : Inbox)
+    (hI : ∀ j ∈ L, j < I.b.length) (cnt cf cm : List Nat) (w : Nat) (hw : w < cnt.length) :
+    getN (genCollectGo st L I cnt cf cm).2.1 w =
+      getN cnt w + ((L.filter (fun x => x ≠ st.i)).map (fun x => (rcNews st.n (bsOf I x)).count w)).sum := by
+  induction L generalizing I cnt cf cm with
+  | nil => simp [genCollectGo]
+  | cons j rest ih =>
+    have hnd := List.nodup_cons.mp hL
+    by_cases hji : j = st.i
+    · rw [genCollectGo]
+      simp only [hji, if_true]
+      rw [ih hnd.2 I (fun k hk => hI k (List.mem_cons_of_mem _ hk)) cnt cf cm hw]
+      simp
+    · rw [ag_genCollectGo_cons st j rest I (hI j (by simp)) hji]
+      rw [ih hnd.2 (setB I j (rcRest st.n (bsOf I j)))
+        (fun k hk => by simpa using hI k (List.mem_cons_of_mem _ hk)) _ _ _ (by rw [ag_bumpL_length]; exact hw)]
+      rw [ag_bumpL_getN _ _ _ hw]
+      have hcongr : ((rest.filter (fun x => x ≠ st.i)).map
+            (fun x => (rcNews st.n (bsOf (setB I j (rcRest st.n (bsOf I j))) x)).count w)) =
+          ((rest.filter (fun x => x ≠ st.i)).map (fun x => (rcNews st.n (bsOf I x)).count w)) := by
+        apply List.map_congr_left
+        intro x hx
+        have hxr : x ∈ rest := (List.mem_filter.mp hx).1
+        have hjx : j ≠ x := by
+          rintro rfl
+          exact hnd.1 hxr
+        rw [ag_bsOf_setB_ne _ _ _ _ hjx]
+      rw [hcongr]
+      simp [hji]
+      omega
+
+/-! the complainers -/
+
+theorem ag_complaintsOf (n j f it : Nat) (dup : List Nat) (I : Inbox) (hj : j < I.b.length) :
+    complaintsOf n j f it dup I = dup ++ (rcS n f it dup (bsOf I j)).1 := by
+  induction f generalizing it dup I with
+  | zero => simp [complaintsOf, rcS]
+  | succ f ih =>
+    unfold complaintsOf rcS
+    rw [ag_popB]
+    rcases hp : popS none (bsOf I j) with ⟨_ | v, s1⟩
+    · simp
+    · simp only
+      by_cases h1 : getUi v < n ∧ ¬ dup.contains (getUi v) = true
+      · simp only [h1, if_true, true_and]
+        by_cases h2 : it + 1 ≤ n
+        · simp only [h2, if_true]
+          rw [ih _ _ (setB I j s1) (by simpa using hj), ag_bsOf_setB_self I j s1 hj]
+          simp
+        · simp [h2]
+      · simp only [h1, if_false]
+        by_cases h4 : getUi v < n
+        · simp only [h4, true_and]
+          by_cases h2 : it + 1 ≤ n
+          · simp only [h2, if_true]
+            rw [ih _ _ (setB I j s1) (by simpa using hj), ag_bsOf_setB_self I j s1 hj]
+          · simp [h2]
+        · simp [h4]
+
+/-- `complainers[who] += [j]` for every `who` of the list -/
+theorem ag_cpsFold_mem (j : Nat) (acc : List Nat) (cps : List (List Nat)) (k x : Nat) (hk : k < cps.length) :
+    ((acc.foldl (fun c who => c.set who (c.getD who [] ++ [j])) cps).length = cps.length) ∧
+    (x ∈ (acc.foldl (fun c who => c.set who (c.getD who [] ++ [j])) cps).getD k [] ↔
+      x ∈ cps.getD k [] ∨ (x = j ∧ k ∈ acc)) := by
+  induction acc generalizing cps with
+  | nil => simp
+  | cons w acc ih =>
+    obtain ⟨h1, h2⟩ := ih (cps.set w (cps.getD w [] ++ [j])) (by simpa using hk)
+    simp only [List.foldl_cons]
+    refine ⟨by rw [h1]; simp, ?_⟩
+    rw [h2, ag_getD_set]
+    by_cases hwk : w = k
+    · subst hwk
+      simp [hk]
+      tauto
+    · have : ¬ k = w := fun e => hwk e.symm
+      simp [hwk, this]
+
+/-- step 1(c): who complained against `k` -/
+theorem ag_genComplainers (st : GenSt) (L : List Nat) (I : Inbox) (hI : ∀ j ∈ L, j < I.b.length)
+    (cps : List (List Nat)) (k x : Nat) (hk : k < cps.length) :
+    (genComplainers st L I cps).length = cps.length ∧
+    (x ∈ (genComplainers st L I cps).getD k [] ↔
+      x ∈ cps.getD k [] ∨ (x ∈ L ∧ x ≠ st.i ∧ k ∈ rcNews st.n (bsOf I x))) := by
+  induction L generalizing cps with
+  | nil => simp [genComplainers]
+  | cons j rest ih =>
+    have hIr : ∀ k ∈ rest, k < I.b.length := fun k hk => hI k (List.mem_cons_of_mem _ hk)
+    unfold genComplainers
+    by_cases hji : j = st.i
+    · simp only [hji, if_true]
+      obtain ⟨h1, h2⟩ := ih hIr cps hk
+      refine ⟨h1, ?_⟩
+      rw [h2]
+      constructor
+      · rintro (h | ⟨h3, h4, h5⟩)
+        · exact Or.inl h
+        · exact Or.inr ⟨List.mem_cons_of_mem _ h3, h4, h5⟩
+      · rintro (h | ⟨h3, h4, h5⟩)
+        · exact Or.inl h
+        · rcases List.mem_cons.mp h3 with e | e
+          · exact absurd e h4
+          · exact Or.inr ⟨e, h4, h5⟩
+    · simp only [hji, if_false]
+      obtain ⟨f1, f2⟩ := ag_cpsFold_mem j (complaintsOf st.n j (st.n + 1) 0 [] I) cps k x hk
+      obtain ⟨h1, h2⟩ := ih hIr
+        ((complaintsOf st.n j (st.n + 1) 0 [] I).foldl (fun c who => c.set who (c.getD who [] ++ [j])) cps)
+        (by rw [f1]; exact hk)
+      refine ⟨h1.trans f1, ?_⟩
+      rw [h2, f2, ag_complaintsOf _ _ _ _ _ _ (hI j (by simp))]
+      simp only [List.nil_append]
+      constructor
+      · rintro ((h | ⟨rfl, h⟩) | ⟨h3, h4, h5⟩)
+        · exact Or.inl h
+        · exact Or.inr ⟨by simp, hji, h⟩
+        · exact Or.inr ⟨List.mem_cons_of_mem _ h3, h4, h5⟩
+      · rintro (h | ⟨h3, h4, h5⟩)
+        · exact Or.inl (Or.inl h)
+        · rcases List.mem_cons.mp h3 with e | e
+          · subst e
+            exact Or.inl (Or.inr ⟨rfl, h5⟩)
+          · exact Or.inr ⟨e, h4, h5⟩
+
+/-- step 1(c): the senders that complained against the reader -/
+theorem ag_genCollectGo_cf (st : GenSt) (L : List Nat) (hL : L.Nodup) (I : Inbox)
+    (hI : ∀ j ∈ L, j < I.b.length) (cnt cf cm : List Nat) (x : Nat) :
+    x ∈ (genCollectGo st L I cnt cf cm).2.2.1 ↔
+      x ∈ cf ∨ (x ∈ L ∧ x ≠ st.i ∧ st.i ∈ rcNews st.n (bsOf I x)) := by
+  induction L generalizing I cnt cf cm with
+  | nil => simp [genCollectGo]
+  | cons j rest ih =>
+    have hnd := List.nodup_cons.mp hL
+    by_cases hji : j = st.i
+    · rw [genCollectGo]
+      simp only [hji, if_true]
+      rw [ih hnd.2 I (fun k hk => hI k (List.mem_cons_of_mem _ hk)) cnt cf cm]
+      constructor
+      · rintro (h | ⟨h3, h4, h5⟩)
+        · exact Or.inl h
+        · exact Or.inr ⟨List.mem_cons_of_mem _ h3, h4, h5⟩
+      · rintro (h | ⟨h3, h4, h5⟩)
+        · exact Or.inl h
+        · rcases List.mem_cons.mp h3 with e | e
+          · exact absurd e h4
+          · exact Or.inr ⟨e, h4, h5⟩
+    · rw [ag_genCollectGo_cons st j rest I (hI j (by simp)) hji]
+      rw [ih hnd.2 (setB I j (rcRest st.n (bsOf I j)))
+        (fun k hk => by simpa using hI k (List.mem_cons_of_mem _ hk))]
+      have hfr : ∀ y, y ∈ rest → bsOf (setB I j (rcRest st.n (bsOf I j))) y = bsOf I y := by
+        intro y hy
+        have hjy : j ≠ y := by
+          rintro rfl
+          exact hnd.1 hy
+        exact ag_bsOf_setB_ne _ _ _ _ hjy
+      simp only [List.mem_append, List.mem_map, List.mem_filter, decide_eq_true_eq]
+      constructor
+      · rintro ((h | ⟨a, ⟨h1, h2⟩, rfl⟩) | ⟨h3, h4, h5⟩)
+        · exact Or.inl h
+        · exact Or.inr ⟨by simp, hji, by rw [← h2]; exact h1⟩
+        · rw [hfr x h3] at h5
+          exact Or.inr ⟨List.mem_cons_of_mem _ h3, h4, h5⟩
+      · rintro (h | ⟨h3, h4, h5⟩)
+        · exact Or.inl (Or.inl h)
+        · rcases List.mem_cons.mp h3 with e | e
+          · subst e
+            exact Or.inl (Or.inr ⟨st.i, ⟨h5, rfl⟩, rfl⟩)
+          · rw [← hfr x e] at h5
+            exact Or.inr ⟨e, h4, h5⟩
+
+/-! ### (6) the readers on the streams of a party that follows the protocol -/
+
+theorem ag_getUi_nat (j : Nat) (hj : j < 2 ^ 64) : getUi (j : Int) = j := by
+  unfold getUi
+  rw [Int.natAbs_natCast, Nat.mod_eq_of_lt hj]
+
+theorem ag_reS_honest (C : List Int) (hC : ∀ c ∈ C, Dkg.checkElement G c = true)
+    (rest : List (Tag × Int)) (acc : List Int) (c : Bool) :
+    reS G none C.length (C.map (fun v => ((none : Tag), v)) ++ rest) acc c = (c, rest, acc ++ C) := by
+  induction C generalizing acc with
+  | nil => simp [reS]
+  | cons v C ih =>
+    simp only [List.length_cons, List.map_cons, List.cons_append, reS, ag_popS_none_cons,
+      hC v (by simp), if_true]
+    rw [ih (fun c hc => hC c (List.mem_cons_of_mem _ hc))]
+    simp
+
+theorem ag_rcS_honest (n : Nat) (hn : n < 2 ^ 64) (D : List Nat) (f it : Nat) (dup : List Nat)
+    (hf : D.length + 1 ≤ f) (hit : it + D.length ≤ n) (hD : ∀ x ∈ D, x < n) (hnd : D.Nodup)
+    (hdup : ∀ x ∈ D, x ∉ dup) :
+    rcS n f it dup (D.map (fun (j : Nat) => ((none : Tag), (j : Int))) ++ [((none : Tag), (n : Int))]) = (D, 0, []) := by
+  induction D generalizing f it dup with
+  | nil =>
+    obtain ⟨f, rfl⟩ : ∃ f', f = f' + 1 := ⟨f - 1, by simp at hf; omega⟩
+    simp [rcS, ag_popS_none_cons, ag_getUi_nat n hn]
+  | cons x D ih =>
+    obtain ⟨f, rfl⟩ : ∃ f', f = f' + 1 := ⟨f - 1, by simp at hf; omega⟩
+    have hx : x < n := hD x (by simp)
+    have hxd : x ∉ dup := hdup x (by simp)
+    have hnd' := List.nodup_cons.mp hnd
+    simp only [List.length_cons] at hf hit
+    have hrec := ih f (it + 1) (dup ++ [x]) (by omega) (by omega)
+      (fun y hy => hD y (List.mem_cons_of_mem _ hy)) hnd'.2
+      (fun y hy => by
+        simp only [List.mem_append, List.mem_singleton, not_or]
+        exact ⟨hdup y (List.mem_cons_of_mem _ hy), fun e => hnd'.1 (e ▸ hy)⟩)
+    simp only [List.map_cons, List.cons_append, rcS, ag_popS_none_cons, ag_getUi_nat x (by omega)]
+    have h1 : (x < n ∧ ¬ dup.contains x = true) := ⟨hx, by simpa using hxd⟩
+    have h2 : it + 1 ≤ n := by omega
+    simp only [h1, if_true, h2, hrec]
+    simp
+
+/-- a well-formed answer list: one verifying triple per entry, then the end marker -/
+theorem ag_raS_honest (n : Nat) (hn : n < 2 ^ 64) (Cj : List Int) (σ τ : Nat → Int) (cfs : List Nat) (f : Nat)
+    (hf : cfs.length + 1 ≤ f)
+    (hcfs : ∀ it ∈ cfs, it < n ∧ absGe (σ it) G.q = false ∧ absGe (τ it) G.q = false ∧
+      ∃ l, pedF G (σ it) (τ it) = .ok l ∧ commitProd G.p (it + 1) Cj = .ok l) :
+    raS G n Cj f (cfs.flatMap (fun (it : Nat) => [((none : Tag), (it : Int)), (none, σ it), (none, τ it)]) ++
+      [((none : Tag), (n : Int))]) = .ok (0, []) := by
+  induction cfs generalizing f with
+  | nil =>
+    obtain ⟨f, rfl⟩ : ∃ f', f = f' + 1 := ⟨f - 1, by simp at hf; omega⟩
+    simp [raS, ag_popS_none_cons, ag_getUi_nat n hn]
+  | cons x cfs ih =>
+    obtain ⟨f, rfl⟩ : ∃ f', f = f' + 1 := ⟨f - 1, by simp at hf; omega⟩
+    obtain ⟨hx, h1, h2, l, hl, hr⟩ := hcfs x (by simp)
+    simp only [List.length_cons] at hf
+    have hrec := ih f (by omega) (fun y hy => hcfs y (List.mem_cons_of_mem _ hy))
+    have hnx : ¬ x ≥ n := by omega
+    simp only [List.flatMap_cons, List.cons_append, List.nil_append, raS, ag_popS_none_cons,
+      ag_getUi_nat x (by omega), hnx, if_false, h1, h2, Bool.false_eq_true, hl, hr, hrec]
+    simp
+
+/-- the answered complainers of a well-formed answer list -/
+theorem ag_anS_honest (n : Nat) (hn : n < 2 ^ 64) (σ τ : Nat → Int) (cfs : List Nat) (f : Nat)
+    (hf : cfs.length + 1 ≤ f) (hcfs : ∀ it ∈ cfs, it < n) (acc : List Nat) :
+    anS n f (cfs.flatMap (fun (it : Nat) => [((none : Tag), (it : Int)), (none, σ it), (none, τ it)]) ++
+      [((none : Tag), (n : Int))]) acc = acc ++ cfs := by
+  induction cfs generalizing f acc with
+  | nil =>
+    obtain ⟨f, rfl⟩ : ∃ f', f = f' + 1 := ⟨f - 1, by simp at hf; omega⟩
+    simp [anS, ag_popS_none_cons, ag_getUi_nat n hn]
+  | cons x cfs ih =>
+    obtain ⟨f, rfl⟩ : ∃ f', f = f' + 1 := ⟨f - 1, by simp at hf; omega⟩
+    have hx : x < n := hcfs x (by simp)
+    simp only [List.length_cons] at hf
+    have hnx : ¬ x ≥ n := by omega
+    simp only [List.flatMap_cons, List.cons_append, List.nil_append, anS, ag_popS_none_cons,
+      ag_getUi_nat x (by omega), hnx, if_false]
+    rw [ih f (by omega) (fun y hy => hcfs y (List.mem_cons_of_mem _ hy))]
+    simp
+
+/-! the sorted duplicate-free list of step 1(b) -/
+
+theorem ag_mem_sortUniq (n : Nat) (l : List Nat) (j : Nat) : j ∈ sortUniq n l ↔ j < n ∧ j ∈ l := by
+  simp [sortUniq, List.mem_filter]
+
+theorem ag_sortUniq_nodup (n : Nat) (l : List Nat) : (sortUniq n l).Nodup :=
+  List.Nodup.filter _ List.nodup_range
+
+theorem ag_sortUniq_length (n : Nat) (l : List Nat) : (sortUniq n l).length ≤ n := by
+  have := List.length_filter_le (fun j => l.contains j) (List.range n)
+  simpa [sortUniq] using this
+
+theorem ag_getN_map_range (n : Nat) (f : Nat → Nat) (j : Nat) (hj : j < n) :
+    getN ((List.range n).map f) j = f j := by
+  unfold getN
+  rw [List.getD_eq_getElem _ _ (by simpa using hj)]
+  simp
+
+theorem ag_getI_map_range (n : Nat) (f : Nat → Int) (j : Nat) (hj : j < n) :
+    getI ((List.range n).map f) j = f j := by
+  unfold getI
+  rw [List.getD_eq_getElem _ _ (by simpa using hj)]
+  simp
+
+/-! the coins of a party that follows the protocol -/
+
+def pinOf (ins : List PartyIn) (i : Nat) : PartyIn := ins.getD i ⟨[], [], {}, {}⟩
+def coefA (t : Nat) (pin : PartyIn) : List Int := (List.range (t + 1)).map (fun k => getI pin.strong (2 * k))
+def coefB (t : Nat) (pin : PartyIn) : List Int := (List.range (t + 1)).map (fun k => getI pin.strong (2 * k + 1))
+def comOf (G : Grp) (t : Nat) (pin : PartyIn) : List Int :=
+  match commitList G (coefA t pin) (coefB t pin) with
+  | .ok C => C
+  | .error _ => []
+def shA (G : Grp) (t : Nat) (pin : PartyIn) (x : Nat) : Int := evalShare G.q (coefA t pin) (x + 1)
+def shB (G : Grp) (t : Nat) (pin : PartyIn) (x : Nat) : Int := evalShare G.q (coefB t pin) (x + 1)
+
+theorem ag_coef_range (t : Nat) (pin : PartyIn) (hc : goodCoins G t pin) :
+    (∀ c ∈ coefA t pin, 0 ≤ c ∧ c < G.q) ∧ (∀ c ∈ coefB t pin, 0 ≤ c ∧ c < G.q) ∧
+    (coefA t pin).length = t + 1 ∧ (coefB t pin).length = t + 1 := by
+  obtain ⟨hlen, hr⟩ := hc
+  refine ⟨?_, ?_, by simp [coefA], by simp [coefB]⟩
+  · intro c hc
+    simp only [coefA, List.mem_map, List.mem_range] at hc
+    obtain ⟨k, hk, rfl⟩ := hc
+    unfold getI
+    rw [List.getD_eq_getElem _ _ (by omega)]
+    exact hr _ (List.getElem_mem _)
+  · intro c hc
+    simp only [coefB, List.mem_map, List.mem_range] at hc
+    obtain ⟨k, hk, rfl⟩ := hc
+    unfold getI
+    rw [List.getD_eq_getElem _ _ (by omega)]
+    exact hr _ (List.getElem_mem _)
+
+/-- `gaList`/`hbList` and the products of `genDeal` are the Pedersen commitments `commitList` -/
+theorem ag_ga_hb_commit (hG : ValidGrp G) (a b : List Int) (hlen : a.length = b.length)
+    (ha : ∀ c ∈ a, 0 ≤ c ∧ c < G.q) (hb : ∀ c ∈ b, 0 ≤ c ∧ c < G.q) :
+    ∃ ga hb, gaList G a = .ok ga ∧ hbList G b = .ok hb ∧
+      commitList G a b = .ok (List.zipWith (fun x y => x * y % G.p) ga hb) := by
+  induction a generalizing b with
+  | nil =>
+    cases b with
+    | nil => exact ⟨[], [], rfl, rfl, rfl⟩
+    | cons b0 bs => simp at hlen
+  | cons a0 as ih =>
+    cases b with
+    | nil => simp at hlen
+    | cons b0 bs =>
+      obtain ⟨x, hx, -⟩ := fspowm_g hG a0 (natAbs_lt_of_range (ha a0 (by simp)))
+      obtain ⟨y, hy, -⟩ := fspowm_h hG b0 (natAbs_lt_of_range (hb b0 (by simp)))
+      obtain ⟨ga, hb', h1, h2, h3⟩ := ih bs (by simpa using hlen)
+        (fun c hc => ha c (List.mem_cons_of_mem _ hc)) (fun c hc => hb c (List.mem_cons_of_mem _ hc))
+      refine ⟨x :: ga, y :: hb', ?_, ?_, ?_⟩
+      · simp only [gaList, hx, h1, bind, Except.bind, pure, Except.pure]
+      · simp only [hbList, hy, h2, bind, Except.bind, pure, Except.pure]
+      · simp only [commitList, pedS, hx, hy, h3, bind, Except.bind, pure, Except.pure,
+          List.zipWith_cons_cons]
+
+/-- what the commitments of a party with good coins satisfy -/
+theorem ag_comOf_spec (hG : ValidGrp G) (t : Nat) (pin : PartyIn) (hc : goodCoins G t pin) :
+    commitList G (coefA t pin) (coefB t pin) = .ok (comOf G t pin) ∧ (comOf G t pin).length = t + 1 ∧
+    (∀ c ∈ comOf G t pin, Dkg.checkElement G c = true) := by
+  have : Fact (Nat.Prime G.q.natAbs) := fact_q hG
+  obtain ⟨ha, hb, hla, hlb⟩ := ag_coef_range (G := G) t pin hc
+  obtain ⟨C, hC, hCl, hCv⟩ := commitList_val hG (coefA t pin) (coefB t pin) (hla.trans hlb.symm) ha hb
+  have hcom : comOf G t pin = C := by simp [comOf, hC]
+  rw [hcom]
+  refine ⟨hC, by rw [hCl, hla], ?_⟩
+  intro c hc
+  obtain ⟨k, hk, rfl⟩ := List.getElem_of_mem hc
+  obtain ⟨h0, h1, hv⟩ := hCv k (by omega)
+  rw [List.getD_eq_getElem _ _ hk] at h0 h1 hv
+  exact pl_checkElement_of_val hG _ _ _ h0 h1 hv
+
+theorem ag_sh_range (hG : ValidGrp G) (t : Nat) (pin : PartyIn) (x : Nat) :
+    absGe (shA G t pin x) G.q = false ∧ absGe (shB G t pin x) G.q = false ∧
+    (shA G t pin x).natAbs < G.q.natAbs ∧ (shB G t pin x).natAbs < G.q.natAbs := by
+  have h1 := evalShare_natAbs hG (coefA t pin) (x + 1)
+  have h2 := evalShare_natAbs hG (coefB t pin) (x + 1)
+  have h3 : ¬ G.q.natAbs ≤ (shA G t pin x).natAbs := by unfold shA; omega
+  have h4 : ¬ G.q.natAbs ≤ (shB G t pin x).natAbs := by unfold shB; omega
+  exact ⟨by simp [absGe, h3], by simp [absGe, h4], h1, h2⟩
+
+/-! ### (7) the step functions of a party that follows the protocol -/
+
+/-- the state after step 1(a), as far as the later steps look at it -/
+structure Dealt (G : Grp) (n t i : Nat) (pin : PartyIn) (st : GenSt) : Prop where
+  hn : st.n = n
+  ht : st.t = t
+  hi : st.i = i
+  sfb : st.sfb = false
+  C : st.C = (zeroRows n t).set i (comOf G t pin)
+  s : st.s = (zeros n).set i (shA G t pin i)
+  sp : st.sp = (zeros n).set i (shB G t pin i)
+  srow : st.srow = (List.range n).map (shA G t pin)
+  sprow : st.sprow = (List.range n).map (shB G t pin)
+
+theorem ag_genDeal_honest (hG : ValidGrp G) (n t i : Nat) (pin : PartyIn) (hc : goodCoins G t pin) (hi : i < n) :
+    ∃ st, genDeal G n t i false pin.strong pin.weak =
+        .ok (st, (comOf G t pin).map (Op.bc none) ++ ((List.range n).filter (· ≠ i)).flatMap
+          (fun j => [Op.pv j (getI st.srow j), Op.pv j (getI st.sprow j)]), .run) ∧
+      Dealt G n t i pin st := by
+  obtain ⟨ha, hb, hla, hlb⟩ := ag_coef_range (G := G) t pin hc
+  obtain ⟨ga, hb', h1, h2, h3⟩ := ag_ga_hb_commit hG (coefA t pin) (coefB t pin) (hla.trans hlb.symm) ha hb
+  have hcom := (ag_comOf_spec hG t pin hc).1
+  rw [h3] at hcom
+  injection hcom with hcom
+  have hlen : ¬ pin.strong.length < 2 * (t + 1) := by
+    have := hc.1
+    omega
+  unfold coefA at h1
+  unfold coefB at h2
+  unfold genDeal
+  simp only [hlen, if_false, h1, h2, bind, Except.bind, pure, Except.pure, hcom]
+  refine ⟨_, rfl, ?_⟩
+  constructor <;> simp [shA, shB, coefA, coefB, ag_getI_map_range _ _ i hi]
+
+theorem ag_pvs_sends (L : List Nat) (hL : L.Nodup) (i' : Nat) (a b : Nat → Int) :
+    ((pvs (L.flatMap (fun j => [Op.pv j (a j), Op.pv j (b j)]))).filter (fun e => e.1 == i')).map (·.2) =
+      if i' ∈ L then [a i', b i'] else [] := by
+  induction L with
+  | nil => simp [pvs]
+  | cons j L ih =>
+    have hnd := List.nodup_cons.mp hL
+    simp only [List.flatMap_cons, List.cons_append, List.nil_append, pvs]
+    by_cases hj : j = i'
+    · subst hj
+      simp [ih hnd.2, hnd.1]
+    · have hj' : ¬ i' = j := fun e => hj e.symm
+      simp [ih hnd.2, hj, hj']
+
+theorem ag_bcs_sends (L : List Nat) (a b : Nat → Int) :
+    bcs (L.flatMap (fun j => [Op.pv j (a j), Op.pv j (b j)])) = [] := by
+  induction L with
+  | nil => simp [bcs]
+  | cons j L ih => simp [List.flatMap_cons, bcs, ih]
+
+/-- step 1(b) for a party whose stored shares are in range -/
+theorem ag_genVerify_spec (hG : ValidGrp G) (st : GenSt) (I : Inbox) (hb : I.b.length = st.n)
+    (hp : I.p.length = st.n) (hC : st.C.length = st.n) (hs : st.s.length = st.n) (hsp : st.sp.length = st.n)
+    (hsr : InR G.q st.s) (hspr : InR G.q st.sp) :
+    ∃ (st' : GenSt) (I' : Inbox) (D : List Nat), genVerify G st I =
+        .ok (st', I', D.map (fun (j : Nat) => Op.bc none (j : Int)) ++ [Op.bc none (st.n : Int)], .run) ∧
+      st'.n = st.n ∧ st'.t = st.t ∧ st'.i = st.i ∧ st'.sfb = st.sfb ∧ st'.srow = st.srow ∧ st'.sprow = st.sprow ∧
+      D.Nodup ∧ (∀ x ∈ D, x < st.n) ∧
+      st'.cnt = (List.range st.n).map (fun j => if D.contains j then 1 else 0) ∧
+      I'.b.length = st.n ∧ st'.C.length = st.n ∧
+      (∀ k, k < st.n → k ≠ st.i →
+        bsOf I' k = (reS G none (st.t + 1) (bsOf I k) [] false).2.1 ∧
+        getRow st'.C k = padRow st.t (reS G none (st.t + 1) (bsOf I k) [] false).2.2) ∧
+      bsOf I' st.i = bsOf I st.i ∧ getRow st'.C st.i = getRow st.C st.i ∧
+      (∀ k v w a l, k < st.n → k ≠ st.i → (reS G none (st.t + 1) (bsOf I k) [] false).1 = false →
+        psOf I k = [v, w] → absGe v G.q = false → absGe w G.q = false → pedS G v w = .ok (a, l) →
+        commitProd G.p (st.i + 1) (padRow st.t (reS G none (st.t + 1) (bsOf I k) [] false).2.2) = .ok l →
+        k ∉ D) ∧
+      (∀ a l, pedS G (getI st.s st.i) (getI st.sp st.i) = .ok (a, l) →
+        commitProd G.p (st.i + 1) (getRow st.C st.i) = .ok l → st.i ∉ D) ∧
+      st'.complainers = (List.range st.n).map (fun j => if D.contains j then [st.i] else []) ∧
+      InR G.q st'.s := by
+  have hq : 0 < G.q := hG.vg.q_pos
+  have hIb : ∀ j ∈ List.range st.n, j < I.b.length := fun j hj => by rw [hb]; exact List.mem_range.mp hj
+  obtain ⟨g1, g2, g3⟩ := ag_genReadC_glob (G := G) st (List.range st.n) I hIb st.C []
+  rcases h1 : genReadC G st (List.range st.n) I st.C [] with ⟨I1, C, cm1⟩
+  rw [h1] at g1 g2 g3
+  simp only at g1 g2 g3
+  have hIp : ∀ j ∈ List.range st.n, j < I1.p.length := fun j hj => by
+    rw [g2, hp]; exact List.mem_range.mp hj
+  obtain ⟨k1, k2, k3, k4, k5⟩ := ag_genReadShares_glob G.q hq st (List.range st.n) I1 hIp st.s st.sp cm1
+  rcases h2 : genReadShares G.q st (List.range st.n) I1 st.s st.sp cm1 with ⟨I2, s, sp, cm2⟩
+  rw [h2] at k1 k2 k3 k4 k5
+  simp only at k1 k2 k3 k4 k5
+  obtain ⟨gs, cm3, h3, hm3⟩ := ag_genCheck4 hG st C s sp (k4 hsr) (k5 hspr) (List.range st.n) st.gs cm2
+  refine ⟨{ st with C := C, s := s, sp := sp, gs := gs, cnt := (List.range st.n).map (fun j => if (sortUniq st.n cm3).contains j then 1 else 0), complainers := (List.range st.n).map (fun j => if (sortUniq st.n cm3).contains j then [st.i] else []), compl := [] },
+    I2, sortUniq st.n cm3, ?_, rfl, rfl, rfl, rfl, rfl, rfl, ag_sortUniq_nodup _ _,
+    fun x hx => ((ag_mem_sortUniq _ _ _).mp hx).1, rfl, ?_, ?_, ?_, ?_, ?_, ?_, ?_, rfl, k4 hsr⟩
+  · unfold genVerify
+    simp only [h1, h2, h3, bind, Except.bind, pure, Except.pure]
+  · rw [show I2.b = I1.b from k1, g1, hb]
+  · exact g3.trans hC
+  · intro k hk hki
+    have := ag_genReadC_hit (G := G) st k (List.range st.n) List.nodup_range I hIb st.C []
+      (List.mem_range.mpr hk) hki
+    rw [h1] at this
+    obtain ⟨t1, t2, -⟩ := this
+    refine ⟨?_, t2 (by rw [hC]; exact hk)⟩
+    show I2.b.getD k [] = _
+    rw [k1]
+    exact t1
+  · have := ag_genReadC_frame (G := G) st st.i (List.range st.n) I hIb st.C [] (Or.inr rfl)
+    rw [h1] at this
+    show I2.b.getD st.i [] = _
+    rw [k1]
+    exact this.1
+  · have := ag_genReadC_frame (G := G) st st.i (List.range st.n) I hIb st.C [] (Or.inr rfl)
+    rw [h1] at this
+    exact this.2.1
+  · intro k v w a l hk hki hre hps hv hw hped hcp hkD
+    have hkm := ((ag_mem_sortUniq _ _ _).mp hkD).2
+    have c1 := ag_genReadC_hit (G := G) st k (List.range st.n) List.nodup_range I hIb st.C []
+      (List.mem_range.mpr hk) hki
+    rw [h1] at c1
+    obtain ⟨-, c12, c13⟩ := c1
+    simp only at c12 c13
+    have hps1 : psOf I1 k = [v, w] := by
+      show I1.p.getD k [] = _
+      rw [g2]
+      exact hps
+    have c2 := ag_genReadShares_hit G.q st k (List.range st.n) List.nodup_range I1 hIp st.s st.sp cm1
+      (List.mem_range.mpr hk) hki v w hps1 hv hw (by rw [hs]; exact hk) (by rw [hsp]; exact hk)
+    rw [h2] at c2
+    obtain ⟨c21, c22, c23⟩ := c2
+    simp only at c21 c22 c23
+    rcases (hm3 k).mp hkm with h | ⟨-, h⟩
+    · rw [c23, c13] at h
+      simp [hre] at h
+    · simp [chk4, c21, c22, hped, c12 (by rw [hC]; exact hk), hcp] at h
+  · intro a l hped hcp hkD
+    have hkm := ((ag_mem_sortUniq _ _ _).mp hkD).2
+    have c1 := ag_genReadC_frame (G := G) st st.i (List.range st.n) I hIb st.C [] (Or.inr rfl)
+    rw [h1] at c1
+    obtain ⟨-, c12, c13⟩ := c1
+    simp only at c12 c13
+    have c2 := ag_genReadShares_frame G.q st st.i (List.range st.n) I1 hIp st.s st.sp cm1 (Or.inr rfl)
+    rw [h2] at c2
+    obtain ⟨c21, c22, c23⟩ := c2
+    simp only at c21 c22 c23
+    rcases (hm3 st.i).mp hkm with h | ⟨-, h⟩
+    · rw [c23, c13] at h
+      simp at h
+    · simp [chk4, c21, c22, hped, c12, hcp] at h
+
+/-- step 1(c) -/
+theorem ag_genCollect_spec (st : GenSt) (I : Inbox) (hb : I.b.length = st.n) (hcnt : st.cnt.length = st.n) :
+    ∃ (st' : GenSt) (I' : Inbox) (cfs : List Nat), genCollect st I =
+        (st', I', (if getN st'.cnt st.i > 0 then cfs.flatMap (fun (it : Nat) =>
+            [Op.bc none (it : Int), Op.bc none (getI st.srow it), Op.bc none (getI st.sprow it)]) else []) ++
+          [Op.bc none (st.n : Int)], .run) ∧
+      st'.n = st.n ∧ st'.t = st.t ∧ st'.i = st.i ∧ st'.C = st.C ∧ st'.sfb = st.sfb ∧
+      cfs.length ≤ st.n ∧ (∀ x ∈ cfs, x < st.n) ∧ I'.b.length = st.n ∧ st'.cnt.length = st.n ∧
+      (∀ k, k < st.n → k ≠ st.i → bsOf I' k = rcRest st.n (bsOf I k)) ∧
+      (∀ w, w < st.n → getN st'.cnt w = getN st.cnt w +
+        (((List.range st.n).filter (fun x => x ≠ st.i)).map (fun x => (rcNews st.n (bsOf I x)).count w)).sum) ∧
+      (∀ k, k ∈ st'.compl ↔ k < st.n ∧ k ≠ st.i ∧ rcBad st.n (bsOf I k) = true) ∧
+      st'.complainers.length = st.complainers.length ∧
+      (∀ k x, k < st.complainers.length → (x ∈ st'.complainers.getD k [] ↔
+        x ∈ st.complainers.getD k [] ∨ (x < st.n ∧ x ≠ st.i ∧ k ∈ rcNews st.n (bsOf I x)))) ∧
+      (∀ x, x ∈ cfs ↔ x < st.n ∧ x ≠ st.i ∧ st.i ∈ rcNews st.n (bsOf I x)) ∧ st'.s = st.s := by
+  have hIb : ∀ j ∈ List.range st.n, j < I.b.length := fun j hj => by rw [hb]; exact List.mem_range.mp hj
+  obtain ⟨g1, g2, g3⟩ := ag_genCollectGo_glob st (List.range st.n) I hIb st.cnt [] []
+  have hcn := fun w (hw : w < st.n) => ag_genCollectGo_cnt st (List.range st.n) List.nodup_range I hIb st.cnt [] [] w
+    (by rw [hcnt]; exact hw)
+  have hhit := fun k (hk : k < st.n) (hki : k ≠ st.i) => ag_genCollectGo_hit st k (List.range st.n)
+    List.nodup_range I hIb st.cnt [] [] (List.mem_range.mpr hk) hki
+  have hfr := fun k (hk : k ∉ List.range st.n ∨ k = st.i) => ag_genCollectGo_frame st k (List.range st.n) I hIb
+    st.cnt [] [] hk
+  rcases h1 : genCollectGo st (List.range st.n) I st.cnt [] [] with ⟨I1, cnt, cf, cm⟩
+  rw [h1] at g1 g2 g3 hcn hhit hfr
+  simp only at g1 g2 g3 hcn hhit hfr
+  have hcf := fun x => ag_genCollectGo_cf st (List.range st.n) List.nodup_range I hIb st.cnt [] [] x
+  rw [h1] at hcf
+  simp only at hcf
+  refine ⟨{ st with cnt := cnt, cfrom := sortUniq st.n cf, complainers := genComplainers st (List.range st.n) I st.complainers, compl := cm }, I1, sortUniq st.n cf, ?_, rfl, rfl, rfl,
+    rfl, rfl, ag_sortUniq_length _ _, fun x hx => ((ag_mem_sortUniq _ _ _).mp hx).1, g1.trans hb,
+    g3.trans hcnt, fun k hk hki => (hhit k hk hki).1, hcn, ?_, ?_, ?_, ?_, rfl⟩
+  · unfold genCollect
+    simp only [h1]
+  · intro k
+    show k ∈ cm ↔ _
+    by_cases hk : k < st.n
+    · by_cases hki : k = st.i
+      · have := (hfr k (Or.inr hki)).2
+        rw [this]
+        simp [hki]
+      · have := (hhit k hk hki).2
+        simp [this, hk, hki]
+    · have := (hfr k (Or.inl (by simpa using hk))).2
+      simp [this, hk]
+  · by_cases h0 : 0 < st.complainers.length
+    · exact (ag_genComplainers st (List.range st.n) I hIb st.complainers 0 0 h0).1
+    · have : st.complainers = [] := List.eq_nil_of_length_eq_zero (by omega)
+      show (genComplainers st (List.range st.n) I st.complainers).length = _
+      rw [this]
+      have hnil : ∀ L, genComplainers st L I [] = [] := by
+        intro L
+        induction L with
+        | nil => rfl
+        | cons j rest ih =>
+          unfold genComplainers
+          split
+          · exact ih
+          · have : ∀ (acc : List Nat), acc.foldl (fun (c : List (List Nat)) who => c.set who (c.getD who [] ++ [j])) [] = [] := by
+              intro acc
+              induction acc with
+              | nil => rfl
+              | cons w acc ih2 => simpa using ih2
+            simp only [this]
+            exact ih
+      rw [hnil]
+  · intro k x hk
+    have := (ag_genComplainers st (List.range st.n) I hIb st.complainers k x hk).2
+    simpa using this
+  · intro x
+    rw [ag_mem_sortUniq, hcf x]
+    simp only [List.not_mem_nil, false_or, List.mem_range]
+    constructor
+    · rintro ⟨h1, -, h2, h3⟩
+      exact ⟨h1, h2, h3⟩
+    · rintro ⟨h1, h2, h3⟩
+      exact ⟨h1, h1, h2, h3⟩
+
+/-- steps 1(d) and 2: the set QUAL -/
+theorem ag_genResolve_spec (hG : ValidGrp G) (st : GenSt) (I : Inbox) (hb : I.b.length = st.n)
+    (hs : InR G.q st.s) :
+    ∃ (st' : GenSt) (I' : Inbox) (ops : List Op) (status : Status),
+      genResolve G st I = .ok (st', I', ops, status) ∧
+      ∀ k, k ∈ st'.qual ↔ k < st.n ∧ ¬ (k ∈ st.compl ∨ st.t < getN st.cnt k ∨
+        (k ≠ st.i ∧ (raBad G st.n (getRow st.C k) (bsOf I k) = true ∨ unB st k (bsOf I k) = true))) := by
+  have hIb : ∀ j ∈ List.range st.n, j < I.b.length := fun j hj => by rw [hb]; exact List.mem_range.mp hj
+  obtain ⟨I1, s, sp, cm, h1, hin, hm⟩ := ag_genResolveGo hG st (List.range st.n) List.nodup_range I hIb st.s st.sp st.compl
+  obtain ⟨gs, hgs⟩ := ag_gaList_total hG s (hin hs)
+  have hq : ∀ k, k ∈ (List.range st.n).filter (fun j => !cm.contains j) ↔ k < st.n ∧ ¬ (k ∈ st.compl ∨
+      st.t < getN st.cnt k ∨ (k ≠ st.i ∧ (raBad G st.n (getRow st.C k) (bsOf I k) = true ∨ unB st k (bsOf I k) = true))) := by
+    intro k
+    simp only [List.mem_filter, List.mem_range, Bool.not_eq_true', List.contains_eq_mem,
+      decide_eq_false_iff_not, hm k]
+    constructor
+    · rintro ⟨hk, h⟩
+      refine ⟨hk, fun h2 => h ?_⟩
+      rcases h2 with h2 | h2 | h2
+      · exact Or.inl h2
+      · exact Or.inr ⟨hk, Or.inl h2⟩
+      · exact Or.inr ⟨hk, Or.inr h2⟩
+    · rintro ⟨hk, h⟩
+      refine ⟨hk, fun h2 => h ?_⟩
+      rcases h2 with h2 | ⟨-, h2 | h2⟩
+      · exact Or.inl h2
+      · exact Or.inr (Or.inl h2)
+      · exact Or.inr (Or.inr h2)
+  unfold genResolve
+  simp only [h1, hgs, bind, Except.bind, pure, Except.pure]
+  split
+  · exact ⟨_, _, _, _, rfl, hq⟩
+  · split
+    · exact ⟨_, _, _, _, rfl, hq⟩
+    · split
+      · exact ⟨_, _, _, _, rfl, hq⟩
+      · exact ⟨_, _, _, _, rfl, hq⟩
+
+/-! ### (8) one round of a party that follows the protocol -/
+
+theorem ag_rcS_nodup (n : Nat) (f it : Nat) (dup : List Nat) (s : List (Tag × Int)) :
+    (rcS n f it dup s).1.Nodup ∧ ∀ x ∈ (rcS n f it dup s).1, x ∉ dup := by
+  induction f generalizing it dup s with
+  | zero => simp [rcS]
+  | succ f ih =>
+    unfold rcS
+    rcases popS none s with ⟨_ | v, s1⟩
+    · simp
+    · simp only
+      split
+      · rename_i h1
+        split
+        · obtain ⟨i1, i2⟩ := ih (it + 1) (dup ++ [getUi v]) s1
+          simp only [List.nodup_cons, List.mem_cons]
+          refine ⟨⟨fun hm => ?_, i1⟩, ?_⟩
+          · have := i2 _ hm
+            simp at this
+          · rintro x (rfl | hx)
+            · simpa using h1.2
+            · have := i2 x hx
+              simp only [List.mem_append, not_or] at this
+              exact this.1
+        · simp only [List.nodup_cons, List.not_mem_nil, not_false_eq_true, List.nodup_nil, and_self,
+            List.mem_singleton, true_and]
+          rintro x rfl
+          simpa using h1.2
+      · split
+        · split
+          · exact ih (it + 1) dup s1
+          · simp
+        · simp
+
+theorem ag_rcNews_count_le (n : Nat) (s : List (Tag × Int)) (w : Nat) : (rcNews n s).count w ≤ 1 :=
+  List.nodup_iff_count_le_one.mp (ag_rcS_nodup n (n + 1) 0 [] s).1 w
+
+/-- a live party that follows the protocol takes its step; what it holds after the deliveries -/
+theorem ag_honest_round {σ} (steps : Nat → Step σ) (R : List (Party σ)) (i : Nat) (P : Party σ)
+    (hP : R[i]? = some P) (hl : HL P) (st : σ) (I : Inbox) (ops : List Op) (status : Status)
+    (hs : steps i P.st P.inbox = .ok (st, I, ops, status)) :
+    outOf steps R i = (bcs ops, pvs ops) ∧
+    ∃ P', (runRound steps R)[i]? = some P' ∧ P'.st = st ∧ P'.status = status ∧ P'.err = none ∧
+      P'.dev = P.dev ∧ P'.fs.dead = false ∧ P'.inbox.b.length = I.b.length ∧ P'.inbox.p.length = I.p.length ∧
+      (∀ k, k < I.b.length → bsOf P'.inbox k = bsOf I k ++ (if k = i then [] else (outOf steps R k).1)) ∧
+      (∀ k, k < I.p.length → psOf P'.inbox k = psOf I k ++
+        (if k = i then [] else ((outOf steps R k).2.filter (fun e => e.1 == i)).map (·.2))) := by
+  obtain ⟨fs, hfs, hsp⟩ := ag_stepParty_honest R.length (steps i) P hl st I ops status hs
+  obtain ⟨P', hP', hd⟩ := ag_runRound_party steps R i P hP
+  rw [hsp] at hd
+  refine ⟨by simp [outOf, hP, hsp], P', hP', hd.st, hd.status, ?_, hd.dev, ?_, hd.blen, hd.plen, hd.b, ?_⟩
+  · rw [hd.err]; exact hl.2.2.1
+  · rw [hd.fs]; exact hfs
+  · intro k hk
+    exact hd.p k hk (ag_honest_unpack P.dev hl.1).2.2.2.1
+
+/-! ### (9) the run: initial parties, the honest parties -/
+
+theorem ag_mem_honestIdx (ins : List PartyIn) (i : Nat) :
+    i ∈ honestIdx ins ↔ i < ins.length ∧ (pinOf ins i).dev1.honest = true := by
+  simp [honestIdx, pinOf, List.mem_filter]
+
+/-- the parties before round 0 -/
+def ps0 (n t : Nat) (ins : List PartyIn) : List (Party GenSt) :=
+  (List.range n).zip ins |>.map (fun (i, pin) =>
+    { dev := pin.dev1, piCnt := List.replicate n 0, inbox := Inbox.empty n,
+      st := { n := n, t := t, i := i, sfb := pin.dev1.sfb } })
+
+theorem ag_runGen_eq (n t : Nat) (ins : List PartyIn) :
+    runGen G n t ins = runRounds (genStep G ins n t) (List.range (6 + t + 1)) (ps0 n t ins) := rfl
+
+theorem ag_ps0_length (n t : Nat) (ins : List PartyIn) (hn : ins.length = n) : (ps0 n t ins).length = n := by
+  simp [ps0, hn]
+
+theorem ag_ps0_getElem? (n t : Nat) (ins : List PartyIn) (hn : ins.length = n) (i : Nat) (hi : i < n) :
+    (ps0 n t ins)[i]? = some { dev := (pinOf ins i).dev1, piCnt := List.replicate n 0, inbox := Inbox.empty n, st := { n := n, t := t, i := i, sfb := (pinOf ins i).dev1.sfb } } := by
+  have h := ag_zipRange_getElem? ins 0 i
+  rw [← List.range_eq_range', hn] at h
+  unfold ps0
+  rw [List.getElem?_map, h]
+  have hi' : i < ins.length := by omega
+  simp [pinOf, List.getElem?_eq_getElem hi']
+
+/-- the hypotheses of the agreement theorems -/
+structure Setting (G : Grp) (n t : Nat) (ins : List PartyIn) : Prop where
+  hG : ValidGrp G
+  hn : ins.length = n
+  hc : ∀ i ∈ honestIdx ins, goodCoins G t (pinOf ins i)
+
+/-- agreement of two honest parties on the unread values of every third sender -/
+def Ag (n : Nat) (ins : List PartyIn) (R : List (Party GenSt)) : Prop :=
+  ∀ i i' P P', i ∈ honestIdx ins → i' ∈ honestIdx ins → R[i]? = some P → R[i']? = some P' →
+    ∀ k, k < n → k ≠ i → k ≠ i' → bsOf P.inbox k = bsOf P'.inbox k
+
+/-- after round 0 -/
+structure S1 (G : Grp) (n t : Nat) (ins : List PartyIn) (i : Nat) (P : Party GenSt) : Prop where
+  hl : HL P
+  dealt : Dealt G n t i (pinOf ins i) P.st
+  blen : P.inbox.b.length = n
+  plen : P.inbox.p.length = n
+  fromH : ∀ j, j ∈ honestIdx ins → j ≠ i →
+    bsOf P.inbox j = (comOf G t (pinOf ins j)).map (fun v => ((none : Tag), v)) ∧
+    psOf P.inbox j = [shA G t (pinOf ins j) i, shB G t (pinOf ins j) i]
+
+def Inv1 (G : Grp) (n t : Nat) (ins : List PartyIn) (R : List (Party GenSt)) : Prop :=
+  R.length = n ∧ (∀ i, i ∈ honestIdx ins → ∃ P, R[i]? = some P ∧ S1 G n t ins i P) ∧ Ag n ins R
+
+theorem ag_bsOf_empty (n k : Nat) : bsOf (Inbox.empty n) k = [] := by
+  unfold bsOf Inbox.empty
+  simp only [List.getD_eq_getElem?_getD, List.getElem?_replicate]
+  split <;> rfl
+
+theorem ag_psOf_empty (n k : Nat) : psOf (Inbox.empty n) k = [] := by
+  unfold psOf Inbox.empty
+  simp only [List.getD_eq_getElem?_getD, List.getElem?_replicate]
+  split <;> rfl
+
+theorem ag_round0 (S : Setting G n t ins) : Inv1 G n t ins (runRound (genStep G ins n t 0) (ps0 n t ins)) := by
+  have hstep : ∀ i, i ∈ honestIdx ins → ∃ P st,
+      (ps0 n t ins)[i]? = some P ∧ HL P ∧ P.inbox = Inbox.empty n ∧ Dealt G n t i (pinOf ins i) st ∧
+      genStep G ins n t 0 i P.st P.inbox = .ok (st, Inbox.empty n,
+        (comOf G t (pinOf ins i)).map (Op.bc none) ++ ((List.range n).filter (· ≠ i)).flatMap
+          (fun j => [Op.pv j (getI st.srow j), Op.pv j (getI st.sprow j)]), .run) := by
+    intro i hi
+    obtain ⟨hi1, hi2⟩ := (ag_mem_honestIdx ins i).mp hi
+    rw [S.hn] at hi1
+    obtain ⟨st, hst, hd⟩ := ag_genDeal_honest S.hG n t i (pinOf ins i) (S.hc i hi) hi1
+    refine ⟨_, st, ag_ps0_getElem? n t ins S.hn i hi1, ⟨hi2, rfl, rfl, rfl⟩, rfl, hd, ?_⟩
+    have hsfb := (ag_honest_unpack _ hi2).1
+    simp only [genStep]
+    show (do
+      let (st1, ops, s) ← genDeal G n t i (pinOf ins i).dev1.sfb (pinOf ins i).strong (pinOf ins i).weak
+      pure (st1, Inbox.empty n, ops, s)) = _
+    rw [hsfb, hst]
+    rfl
+  refine ⟨by rw [ag_runRound_length, ag_ps0_length n t ins S.hn], ?_, ?_⟩
+  · intro i hi
+    obtain ⟨P, st, hP, hl, hI, hd, hs⟩ := hstep i hi
+    obtain ⟨-, P', hP', e1, e2, e3, e4, e5, e6, e7, e8, e9⟩ :=
+      ag_honest_round (genStep G ins n t 0) (ps0 n t ins) i P hP hl _ _ _ _ hs
+    have hbl : (Inbox.empty n).b.length = n := by simp [Inbox.empty]
+    have hpl : (Inbox.empty n).p.length = n := by simp [Inbox.empty]
+    refine ⟨P', hP', ⟨⟨by rw [e4]; exact hl.1, e5, e3, e2⟩, by rw [e1]; exact hd, e6.trans hbl, e7.trans hpl, ?_⟩⟩
+    intro j hj hji
+    obtain ⟨hj1, hj2⟩ := (ag_mem_honestIdx ins j).mp hj
+    rw [S.hn] at hj1
+    obtain ⟨hi1, -⟩ := (ag_mem_honestIdx ins i).mp hi
+    rw [S.hn] at hi1
+    obtain ⟨Pj, stj, hPj, hlj, hIj, hdj, hsj⟩ := hstep j hj
+    have hout := (ag_honest_round (genStep G ins n t 0) (ps0 n t ins) j Pj hPj hlj _ _ _ _ hsj).1
+    constructor
+    · rw [e8 j (by rw [hbl]; exact hj1), ag_bsOf_empty, hout]
+      simp [hji, ag_bcs_append, ag_bcs_map_bc, ag_bcs_sends]
+    · rw [e9 j (by rw [hpl]; exact hj1), ag_psOf_empty, hout]
+      simp only [hji, if_false, List.nil_append, ag_pvs_append, ag_pvs_map_bc]
+      rw [ag_pvs_sends _ (List.Nodup.filter _ List.nodup_range)]
+      have : i ∈ (List.range n).filter (· ≠ j) := by
+        simp [List.mem_filter, hi1, Ne.symm hji]
+      rw [if_pos this, hdj.srow, hdj.sprow, ag_getI_map_range _ _ i hi1, ag_getI_map_range _ _ i hi1]
+  · intro i i' P1 P1' hi hi' hP1 hP1' k hk hki hki'
+    obtain ⟨P, st, hP, hl, hI, hd, hs⟩ := hstep i hi
+    obtain ⟨-, P', hP', e1, e2, e3, e4, e5, e6, e7, e8, e9⟩ :=
+      ag_honest_round (genStep G ins n t 0) (ps0 n t ins) i P hP hl _ _ _ _ hs
+    obtain ⟨Q, stq, hQ, hlq, hIq, hdq, hsq⟩ := hstep i' hi'
+    obtain ⟨-, Q', hQ', f1, f2, f3, f4, f5, f6, f7, f8, f9⟩ :=
+      ag_honest_round (genStep G ins n t 0) (ps0 n t ins) i' Q hQ hlq _ _ _ _ hsq
+    rw [hP'] at hP1
+    rw [hQ'] at hP1'
+    injection hP1 with hP1
+    injection hP1' with hP1'
+    subst hP1 hP1'
+    have hbl : (Inbox.empty n).b.length = n := by simp [Inbox.empty]
+    rw [e8 k (by rw [hbl]; exact hk), f8 k (by rw [hbl]; exact hk)]
+    simp [hki, hki']
+
+/-! ### (10) round 1: the commitments, the shares, the complaints -/
+
+theorem ag_nodup_lt_length (n : Nat) (D : List Nat) (hnd : D.Nodup) (hD : ∀ x ∈ D, x < n) : D.length ≤ n := by
+  have h : D ⊆ List.range n := fun x hx => List.mem_range.mpr (hD x hx)
+  have := (List.Nodup.subperm hnd h).length_le
+  simpa using this
+
+theorem ag_bcs_map_nat (D : List Nat) (n : Nat) :
+    bcs (D.map (fun (j : Nat) => Op.bc none (j : Int)) ++ [Op.bc none (n : Int)]) =
+      D.map (fun (j : Nat) => ((none : Tag), (j : Int))) ++ [((none : Tag), (n : Int))] := by
+  induction D with
+  | nil => rfl
+  | cons x D ih => simp only [List.map_cons, List.cons_append, bcs, ih]
+
+theorem ag_padRow_full (t : Nat) (l : List Int) (h : l.length = t + 1) : padRow t l = l := by
+  simp [padRow, h, zeros]
+
+theorem ag_InR_zeros_set (q : Int) (hq : 0 < q) (n i : Nat) (v : Int) (hv : v.natAbs < q.natAbs) :
+    InR q ((zeros n).set i v) := by
+  apply ag_InR_set _ _ _ _ _ hv
+  intro x hx
+  simp only [zeros, List.mem_replicate] at hx
+  rw [hx.2]
+  simp; omega
+
+theorem ag_count_indicator (D : List Nat) (hnd : D.Nodup) (w : Nat) :
+    D.count w = if D.contains w then 1 else 0 := by
+  by_cases h : w ∈ D
+  · simp [h, List.count_eq_one_of_mem hnd h]
+  · simp [h, List.count_eq_zero_of_not_mem h]
+
+/-- step 1(b) of an honest party in the state reached after round 0 -/
+theorem ag_verify_honest (S : Setting G n t ins) (i : Nat) (hi : i ∈ honestIdx ins) (P : Party GenSt)
+    (h1 : S1 G n t ins i P) :
+    ∃ (st' : GenSt) (I' : Inbox) (D : List Nat), genStep G ins n t 1 i P.st P.inbox =
+        .ok (st', I', D.map (fun (j : Nat) => Op.bc none (j : Int)) ++ [Op.bc none (n : Int)], .run) ∧
+      st'.n = n ∧ st'.t = t ∧ st'.i = i ∧
+      st'.srow = (List.range n).map (shA G t (pinOf ins i)) ∧
+      st'.sprow = (List.range n).map (shB G t (pinOf ins i)) ∧
+      D.Nodup ∧ (∀ x ∈ D, x < n) ∧
+      st'.cnt = (List.range n).map (fun j => if D.contains j then 1 else 0) ∧
+      I'.b.length = n ∧ I'.p.length = I'.p.length ∧
+      (∀ k, k < n → k ≠ i →
+        bsOf I' k = (reS G none (t + 1) (bsOf P.inbox k) [] false).2.1 ∧
+        getRow st'.C k = padRow t (reS G none (t + 1) (bsOf P.inbox k) [] false).2.2) ∧
+      (∀ j, j ∈ honestIdx ins → getRow st'.C j = comOf G t (pinOf ins j) ∧ j ∉ D) ∧
+      (∀ j, j ∈ honestIdx ins → j ≠ i → bsOf I' j = []) ∧
+      st'.complainers = (List.range n).map (fun j => if D.contains j then [i] else []) ∧
+      InR G.q st'.s := by
+  have hG := S.hG
+  have : Fact (Nat.Prime G.q.natAbs) := fact_q hG
+  have hq : 0 < G.q := hG.vg.q_pos
+  obtain ⟨hi1, -⟩ := (ag_mem_honestIdx ins i).mp hi
+  rw [S.hn] at hi1
+  have hd := h1.dealt
+  have hshare : ∀ j, j ∈ honestIdx ins → ∃ a l, pedS G (shA G t (pinOf ins j) i) (shB G t (pinOf ins j) i) = .ok (a, l) ∧
+      commitProd G.p (i + 1) (comOf G t (pinOf ins j)) = .ok l := by
+    intro j hj
+    obtain ⟨ha, hb, hla, hlb⟩ := ag_coef_range (G := G) t (pinOf ins j) (S.hc j hj)
+    obtain ⟨ga, l, r, e1, e2, e3⟩ := share_check hG _ _ (hla.trans hlb.symm) ha hb _
+      (ag_comOf_spec hG t (pinOf ins j) (S.hc j hj)).1 (i + 1)
+    exact ⟨ga, l, e1, by rw [e2, e3]⟩
+  obtain ⟨st', I', D, hv, v1, v2, v3, v4, v5, v6, v7, v8, v9, v10, v11, v12, v13, v14, v15, v16, v17, v18⟩ :=
+    ag_genVerify_spec hG P.st P.inbox (by rw [h1.blen, hd.hn]) (by rw [h1.plen, hd.hn])
+      (by rw [hd.C, hd.hn]; simp [zeroRows]) (by rw [hd.s, hd.hn]; simp [zeros]) (by rw [hd.sp, hd.hn]; simp [zeros])
+      (by rw [hd.s]; exact ag_InR_zeros_set G.q hq n i _ (ag_sh_range hG t _ i).2.2.1)
+      (by rw [hd.sp]; exact ag_InR_zeros_set G.q hq n i _ (ag_sh_range hG t _ i).2.2.2)
+  simp only [hd.hn, hd.ht, hd.hi] at hv v1 v2 v3 v8 v9 v10 v11 v12 v13 v14 v15 v16 v17
+  have hrow : ∀ j, j ∈ honestIdx ins → j ≠ i →
+      reS G none (t + 1) (bsOf P.inbox j) [] false = (false, [], comOf G t (pinOf ins j)) := by
+    intro j hj hji
+    obtain ⟨c1, c2, c3⟩ := ag_comOf_spec hG t (pinOf ins j) (S.hc j hj)
+    rw [(h1.fromH j hj hji).1, ← c2]
+    have := ag_reS_honest (G := G) (comOf G t (pinOf ins j)) c3 [] [] false
+    simpa using this
+  have hnotD : ∀ j, j ∈ honestIdx ins → j ∉ D := by
+    intro j hj
+    obtain ⟨hj1, -⟩ := (ag_mem_honestIdx ins j).mp hj
+    rw [S.hn] at hj1
+    obtain ⟨a, l, e1, e2⟩ := hshare j hj
+    by_cases hji : j = i
+    · subst hji
+      refine v16 a l ?_ ?_
+      · rw [hd.s, hd.sp, ag_getI_set, ag_getI_set]
+        simpa [zeros, hj1] using e1
+      · rw [hd.C, ag_getRow_set]
+        simpa [zeroRows, hj1] using e2
+    · have hr := hrow j hj hji
+      refine v15 j _ _ a l hj1 hji (by rw [hr]) (h1.fromH j hj hji).2 (ag_sh_range hG t _ i).1
+        (ag_sh_range hG t _ i).2.1 e1 ?_
+      rw [hr, ag_padRow_full t _ (ag_comOf_spec hG t (pinOf ins j) (S.hc j hj)).2.1]
+      exact e2
+  refine ⟨st', I', D, hv, v1, v2, v3, by rw [v5, hd.srow], by rw [v6, hd.sprow], v7, v8, v9, v10, rfl,
+    v12, ?_, ?_, v17, v18⟩
+  · intro j hj
+    refine ⟨?_, hnotD j hj⟩
+    obtain ⟨hj1, -⟩ := (ag_mem_honestIdx ins j).mp hj
+    rw [S.hn] at hj1
+    by_cases hji : j = i
+    · subst hji
+      rw [v14, hd.C, ag_getRow_set]
+      simp [zeroRows, hj1]
+    · rw [(v12 j hj1 hji).2, hrow j hj hji, ag_padRow_full t _ (ag_comOf_spec hG t (pinOf ins j) (S.hc j hj)).2.1]
+  · intro j hj hji
+    obtain ⟨hj1, -⟩ := (ag_mem_honestIdx ins j).mp hj
+    rw [S.hn] at hj1
+    rw [(v12 j hj1 hji).1, hrow j hj hji]
+
+/-- after round 1 -/
+structure S2 (G : Grp) (n t : Nat) (ins : List PartyIn) (i : Nat) (P : Party GenSt) : Prop where
+  hl : HL P
+  hn : P.st.n = n
+  ht : P.st.t = t
+  hi : P.st.i = i
+  srow : P.st.srow = (List.range n).map (shA G t (pinOf ins i))
+  sprow : P.st.sprow = (List.range n).map (shB G t (pinOf ins i))
+  blen : P.inbox.b.length = n
+  clen : P.st.cnt.length = n
+  CH : ∀ j, j ∈ honestIdx ins → getRow P.st.C j = comOf G t (pinOf ins j) ∧ getN P.st.cnt j = 0
+  cplen : P.st.complainers.length = n
+  cps : ∀ k, k < n → ∀ c, c ∈ P.st.complainers.getD k [] ↔ c = i ∧ 0 < getN P.st.cnt k
+  sIn : InR G.q P.st.s
+
+/-- two honest parties after round 1: the commitments of third parties agree, and the complaint
+    list `i` broadcast is read by `i'` as the complaints `i` counted for itself -/
+def Cross2 (n : Nat) (i : Nat) (P P' : Party GenSt) : Prop :=
+  rcBad n (bsOf P'.inbox i) = false ∧ rcRest n (bsOf P'.inbox i) = [] ∧
+  ∀ w, w < n → (rcNews n (bsOf P'.inbox i)).count w = getN P.st.cnt w
+
+def Inv2 (G : Grp) (n t : Nat) (ins : List PartyIn) (R : List (Party GenSt)) : Prop :=
+  R.length = n ∧ (∀ i, i ∈ honestIdx ins → ∃ P, R[i]? = some P ∧ S2 G n t ins i P) ∧ Ag n ins R ∧
+  (∀ i i' P P', i ∈ honestIdx ins → i' ∈ honestIdx ins → R[i]? = some P → R[i']? = some P' → i ≠ i' →
+    (∀ k, k < n → k ≠ i → k ≠ i' → getRow P.st.C k = getRow P'.st.C k) ∧ Cross2 n i P P')
+
+/-- round 1 for one honest party: its step and the party after the round -/
+theorem ag_round1_party (S : Setting G n t ins) (R : List (Party GenSt)) (h : Inv1 G n t ins R)
+    (i : Nat) (hi : i ∈ honestIdx ins) :
+    ∃ (P : Party GenSt) (st' : GenSt) (I' : Inbox) (D : List Nat) (P' : Party GenSt),
+    R[i]? = some P ∧ S1 G n t ins i P ∧
+    (runRound (genStep G ins n t 1) R)[i]? = some P' ∧
+    outOf (genStep G ins n t 1) R i =
+      (D.map (fun (j : Nat) => ((none : Tag), (j : Int))) ++ [((none : Tag), (n : Int))], []) ∧
+    P'.st = st' ∧ HL P' ∧ P'.inbox.b.length = n ∧
+    (∀ k, k < n → bsOf P'.inbox k = bsOf I' k ++
+      (if k = i then [] else (outOf (genStep G ins n t 1) R k).1)) ∧
+    st'.n = n ∧ st'.t = t ∧ st'.i = i ∧
+    st'.srow = (List.range n).map (shA G t (pinOf ins i)) ∧
+    st'.sprow = (List.range n).map (shB G t (pinOf ins i)) ∧
+    D.Nodup ∧ (∀ x ∈ D, x < n) ∧
+    st'.cnt = (List.range n).map (fun j => if D.contains j then 1 else 0) ∧
+    (∀ k, k < n → k ≠ i →
+      bsOf I' k = (reS G none (t + 1) (bsOf P.inbox k) [] false).2.1 ∧
+      getRow st'.C k = padRow t (reS G none (t + 1) (bsOf P.inbox k) [] false).2.2) ∧
+    (∀ j, j ∈ honestIdx ins → getRow st'.C j = comOf G t (pinOf ins j) ∧ j ∉ D) ∧
+    (∀ j, j ∈ honestIdx ins → j ≠ i → bsOf I' j = []) ∧
+    st'.complainers = (List.range n).map (fun j => if D.contains j then [i] else []) ∧
+    InR G.q st'.s := by
+  obtain ⟨hlen, hS, hAg⟩ := h
+  obtain ⟨P, hP, h1⟩ := hS i hi
+  obtain ⟨st', I', D, hv, v1, v2, v3, v4, v5, v6, v7, v8, v9, -, v11, v12, v13, v14, v15⟩ := ag_verify_honest S i hi P h1
+  obtain ⟨hout, P', hP', e1, e2, e3, e4, e5, e6, e7, e8, e9⟩ :=
+    ag_honest_round (genStep G ins n t 1) R i P hP h1.hl _ _ _ _ hv
+  refine ⟨P, st', I', D, P', hP, h1, hP', ?_, e1, ⟨by rw [e4]; exact h1.hl.1, e5, e3, e2⟩, e6.trans v9,
+    fun k hk => e8 k (by rw [v9]; exact hk), v1, v2, v3, v4, v5, v6, v7, v8, v11, v12, v13, v14, v15⟩
+  rw [hout, ag_bcs_map_nat]
+  congr 1
+  rw [ag_pvs_append]
+  have : ∀ (L : List Nat), pvs (L.map (fun (j : Nat) => Op.bc none (j : Int))) = [] := by
+    intro L
+    induction L with
+    | nil => rfl
+    | cons x L ih => simp [pvs, ih]
+  simp [this, pvs]
+
+/-- round 1: the state of every honest party (no bound on `n` needed) -/
+theorem ag_round1_S2 (S : Setting G n t ins) (R : List (Party GenSt)) (h : Inv1 G n t ins R)
+    (i : Nat) (hi : i ∈ honestIdx ins) :
+    ∃ P, (runRound (genStep G ins n t 1) R)[i]? = some P ∧ S2 G n t ins i P := by
+  have hparty := ag_round1_party S R h
+  obtain ⟨P, st', I', D, P', hP, h1, hP', hout, e1, hl', bl, hb, v1, v2, v3, v4, v5, v6, v7, v8, v11, v12, v13, v14, v15⟩ :=
+    hparty i hi
+  refine ⟨P', hP', ⟨hl', by rw [e1]; exact v1, by rw [e1]; exact v2, by rw [e1]; exact v3,
+    by rw [e1]; exact v4, by rw [e1]; exact v5, bl, by rw [e1, v8]; simp, ?_, by rw [e1, v14]; simp, ?_,
+    by rw [e1]; exact v15⟩⟩
+  · intro j hj
+    obtain ⟨hj1, -⟩ := (ag_mem_honestIdx ins j).mp hj
+    rw [S.hn] at hj1
+    rw [e1]
+    refine ⟨(v12 j hj).1, ?_⟩
+    rw [v8, ag_getN_map_range _ _ j hj1]
+    have := (v12 j hj).2
+    simp [this]
+  · intro k hk c
+    rw [e1, v14, v8, ag_getN_map_range _ _ k hk]
+    have : ((List.range n).map (fun j => if D.contains j then [i] else [])).getD k [] =
+        if D.contains k then [i] else [] := by
+      rw [List.getD_eq_getElem _ _ (by simpa using hk)]
+      simp
+    rw [this]
+    by_cases hD : k ∈ D
+    · simp [hD]
+    · simp [hD]
+
+theorem ag_round1 (S : Setting G n t ins) (hn64 : n < 2 ^ 64) (R : List (Party GenSt)) (h : Inv1 G n t ins R) :
+    Inv2 G n t ins (runRound (genStep G ins n t 1) R) := by
+  have hparty := ag_round1_party S R h
+  have hS2 := ag_round1_S2 S R h
+  obtain ⟨hlen, hS, hAg⟩ := h
+  refine ⟨by rw [ag_runRound_length, hlen], ?_, ?_, ?_⟩
+  · exact hS2
+  · intro i i' P1 P1' hi hi' hP1 hP1' k hk hki hki'
+    obtain ⟨P, st', I', D, P', hP, h1, hP', hout, e1, hl', bl, hb, v1, v2, v3, v4, v5, v6, v7, v8, v11, v12, v13, v14, v15⟩ :=
+      hparty i hi
+    obtain ⟨Q, stq, Iq, Dq, Q', hQ, hq1, hQ', houtq, f1, hlq', blq, hbq, w1, w2, w3, w4, w5, w6, w7, w8, w11, w12, w13, w14, w15⟩ :=
+      hparty i' hi'
+    rw [hP'] at hP1
+    rw [hQ'] at hP1'
+    injection hP1 with hP1
+    injection hP1' with hP1'
+    subst hP1 hP1'
+    rw [hb k hk, hbq k hk, (v11 k hk hki).1, (w11 k hk hki').1, hAg i i' P Q hi hi' hP hQ k hk hki hki']
+    simp [hki, hki']
+  · intro i i' P1 P1' hi hi' hP1 hP1' hne
+    obtain ⟨P, st', I', D, P', hP, h1, hP', hout, e1, hl', bl, hb, v1, v2, v3, v4, v5, v6, v7, v8, v11, v12, v13, v14, v15⟩ :=
+      hparty i hi
+    obtain ⟨Q, stq, Iq, Dq, Q', hQ, hq1, hQ', houtq, f1, hlq', blq, hbq, w1, w2, w3, w4, w5, w6, w7, w8, w11, w12, w13, w14, w15⟩ :=
+      hparty i' hi'
+    rw [hP'] at hP1
+    rw [hQ'] at hP1'
+    injection hP1 with hP1
+    injection hP1' with hP1'
+    subst hP1 hP1'
+    obtain ⟨hi1, -⟩ := (ag_mem_honestIdx ins i).mp hi
+    rw [S.hn] at hi1
+    constructor
+    · intro k hk hki hki'
+      rw [e1, f1, (v11 k hk hki).2, (w11 k hk hki').2, hAg i i' P Q hi hi' hP hQ k hk hki hki']
+    · have hstream : bsOf Q'.inbox i =
+          D.map (fun (j : Nat) => ((none : Tag), (j : Int))) ++ [((none : Tag), (n : Int))] := by
+        rw [hbq i hi1, w13 i hi hne, hout]
+        simp [hne]
+      have hrc := ag_rcS_honest n hn64 D (n + 1) 0 [] (by have := ag_nodup_lt_length n D v6 v7; omega)
+        (by have := ag_nodup_lt_length n D v6 v7; omega) v7 v6 (by simp)
+      refine ⟨?_, ?_, ?_⟩
+      · simp [rcBad, hstream, hrc]
+      · simp [rcRest, hstream, hrc]
+      · intro w hw
+        simp only [rcNews, hstream, hrc]
+        rw [e1, v8, ag_getN_map_range _ _ w hw, ag_count_indicator D v6 w]
+
+/-! ### (11) round 2: the complaint counters -/
+
+theorem ag_sum_le_countP (L : List Nat) (f : Nat → Nat) (p : Nat → Bool) (h1 : ∀ x ∈ L, f x ≤ 1)
+    (h0 : ∀ x ∈ L, p x = true → f x = 0) : (L.map f).sum ≤ L.countP (fun x => !p x) := by
+  induction L with
+  | nil => simp
+  | cons a L ih =>
+    have ih' := ih (fun x hx => h1 x (List.mem_cons_of_mem _ hx)) (fun x hx => h0 x (List.mem_cons_of_mem _ hx))
+    simp only [List.map_cons, List.sum_cons, List.countP_cons]
+    cases hp : p a
+    · have := h1 a (by simp)
+      simp
+      omega
+    · have := h0 a (by simp) hp
+      simp
+      omega
+
+theorem ag_sum_filter_ne_notin (L : List Nat) (i : Nat) (hi : i ∉ L) (f : Nat → Nat) (g : Nat) :
+    ((L.filter (fun x => x ≠ i)).map f).sum = (L.map (fun x => if x = i then g else f x)).sum := by
+  induction L with
+  | nil => simp
+  | cons a L ih =>
+    have hai : a ≠ i := fun e => hi (by simp [e])
+    have hi' : i ∉ L := fun h => hi (List.mem_cons_of_mem _ h)
+    rw [List.filter_cons_of_pos (by simp [hai])]
+    simp only [List.map_cons, List.sum_cons, hai, if_false]
+    rw [ih hi']
+
+theorem ag_sum_filter_ne (L : List Nat) (hL : L.Nodup) (i : Nat) (hi : i ∈ L) (f : Nat → Nat) (g : Nat) :
+    g + ((L.filter (fun x => x ≠ i)).map f).sum = (L.map (fun x => if x = i then g else f x)).sum := by
+  induction L with
+  | nil => simp at hi
+  | cons a L ih =>
+    have hnd := List.nodup_cons.mp hL
+    by_cases hai : a = i
+    · subst hai
+      have := ag_sum_filter_ne_notin L a hnd.1 f g
+      rw [List.filter_cons_of_neg (by simp)]
+      simp only [List.map_cons, List.sum_cons, if_true]
+      rw [this]
+    · have hi' : i ∈ L := by
+        rcases List.mem_cons.mp hi with h | h
+        · exact absurd h.symm hai
+        · exact h
+      have := ih hnd.2 hi'
+      rw [List.filter_cons_of_pos (by simp [hai])]
+      simp only [List.map_cons, List.sum_cons, hai, if_false]
+      omega
+
+theorem ag_countP_nothonest (ins : List PartyIn) :
+    (List.range ins.length).countP (fun x => !((pinOf ins x).dev1.honest)) =
+      ins.length - (honestIdx ins).length := by
+  have h := List.length_eq_countP_add_countP (fun x => (pinOf ins x).dev1.honest) (l := List.range ins.length)
+  have h2 : (honestIdx ins).length = (List.range ins.length).countP (fun x => (pinOf ins x).dev1.honest) := by
+    simp [honestIdx, pinOf, List.countP_eq_length_filter]
+  simp only [List.length_range] at h
+  have h3 : (List.range ins.length).countP (fun x => !((pinOf ins x).dev1.honest)) =
+      (List.range ins.length).countP (fun a => ¬ (pinOf ins a).dev1.honest = true) := by
+    apply List.countP_congr
+    intro x _
+    simp
+  omega
+
+theorem ag_le_sum_map (L : List Nat) (f : Nat → Nat) (x : Nat) (hx : x ∈ L) : f x ≤ (L.map f).sum := by
+  induction L with
+  | nil => simp at hx
+  | cons a L ih =>
+    simp only [List.map_cons, List.sum_cons]
+    rcases List.mem_cons.mp hx with e | e
+    · subst e; omega
+    · have := ih e; omega
+
+/-- after round 2 -/
+structure S3 (G : Grp) (n t : Nat) (ins : List PartyIn) (i : Nat) (P : Party GenSt) : Prop where
+  hl : HL P
+  hn : P.st.n = n
+  ht : P.st.t = t
+  hi : P.st.i = i
+  blen : P.inbox.b.length = n
+  CH : ∀ j, j ∈ honestIdx ins →
+    getRow P.st.C j = comOf G t (pinOf ins j) ∧ getN P.st.cnt j ≤ t ∧ j ∉ P.st.compl
+  sIn : InR G.q P.st.s
+
+def Inv3 (G : Grp) (n t : Nat) (ins : List PartyIn) (R : List (Party GenSt)) : Prop :=
+  R.length = n ∧ (∀ i, i ∈ honestIdx ins → ∃ P, R[i]? = some P ∧ S3 G n t ins i P) ∧ Ag n ins R ∧
+  (∀ i i' P P', i ∈ honestIdx ins → i' ∈ honestIdx ins → R[i]? = some P → R[i']? = some P' → i ≠ i' →
+    (∀ k, k < n → k ≠ i → k ≠ i' →
+      getRow P.st.C k = getRow P'.st.C k ∧ (k ∈ P.st.compl ↔ k ∈ P'.st.compl)) ∧
+    (∀ w, w < n → getN P.st.cnt w = getN P'.st.cnt w) ∧
+    raBad G n (comOf G t (pinOf ins i)) (bsOf P'.inbox i) = false ∧
+    (∀ k, k < n → k ≠ i → k ≠ i' → ∀ c, c ∈ P.st.complainers.getD k [] ↔ c ∈ P'.st.complainers.getD k []) ∧
+    (∀ c, c ∈ P'.st.complainers.getD i [] → c ∈ anS n (n + 1) (bsOf P'.inbox i) []))
+
+theorem ag_bcs_triples (cfs : List Nat) (a b : Nat → Int) (n : Nat) :
+    bcs (cfs.flatMap (fun (it : Nat) => [Op.bc none (it : Int), Op.bc none (a it), Op.bc none (b it)]) ++
+      [Op.bc none (n : Int)]) =
+    cfs.flatMap (fun (it : Nat) => [((none : Tag), (it : Int)), (none, a it), (none, b it)]) ++
+      [((none : Tag), (n : Int))] := by
+  induction cfs with
+  | nil => rfl
+  | cons x cfs ih => simp only [List.flatMap_cons, List.cons_append, List.nil_append, bcs, ih]
+
+theorem ag_pvs_triples (cfs : List Nat) (a b : Nat → Int) (n : Nat) :
+    pvs (cfs.flatMap (fun (it : Nat) => [Op.bc none (it : Int), Op.bc none (a it), Op.bc none (b it)]) ++
+      [Op.bc none (n : Int)]) = [] := by
+  induction cfs with
+  | nil => rfl
+  | cons x cfs ih => simp only [List.flatMap_cons, List.cons_append, List.nil_append, pvs, ih]
+
+/-- round 2 for one honest party: its step and the party after the round -/
+theorem ag_round2_party (hn : ins.length = n) (R : List (Party GenSt))
+    (hS : ∀ i, i ∈ honestIdx ins → ∃ P, R[i]? = some P ∧ S2 G n t ins i P)
+    (i : Nat) (hi : i ∈ honestIdx ins) :
+    ∃ (P : Party GenSt) (st' : GenSt) (I' : Inbox) (cfs : List Nat) (P' : Party GenSt),
+    R[i]? = some P ∧ S2 G n t ins i P ∧
+    (runRound (genStep G ins n t 2) R)[i]? = some P' ∧
+    (outOf (genStep G ins n t 2) R i).1 =
+      cfs.flatMap (fun (it : Nat) => [((none : Tag), (it : Int)),
+        (none, getI P.st.srow it), (none, getI P.st.sprow it)]) ++ [((none : Tag), (n : Int))] ∧
+    cfs.length ≤ n ∧ (∀ x ∈ cfs, x < n) ∧
+    P'.st = st' ∧ HL P' ∧ P'.inbox.b.length = n ∧
+    (∀ k, k < n → bsOf P'.inbox k = bsOf I' k ++
+      (if k = i then [] else (outOf (genStep G ins n t 2) R k).1)) ∧
+    st'.n = n ∧ st'.t = t ∧ st'.i = i ∧ st'.C = P.st.C ∧
+    (∀ k, k < n → k ≠ i → bsOf I' k = rcRest n (bsOf P.inbox k)) ∧
+    (∀ w, w < n → getN st'.cnt w = getN P.st.cnt w +
+      (((List.range n).filter (fun x => x ≠ i)).map (fun x => (rcNews n (bsOf P.inbox x)).count w)).sum) ∧
+    (∀ k, k ∈ st'.compl ↔ k < n ∧ k ≠ i ∧ rcBad n (bsOf P.inbox k) = true) ∧
+    st'.complainers.length = n ∧
+    (∀ k, k < n → ∀ x, x ∈ st'.complainers.getD k [] ↔
+      (x = i ∧ 0 < getN P.st.cnt k) ∨ (x < n ∧ x ≠ i ∧ k ∈ rcNews n (bsOf P.inbox x))) ∧
+    (∀ x, x < n → x ≠ i → i ∈ rcNews n (bsOf P.inbox x) → x ∈ cfs) ∧
+    InR G.q st'.s := by
+  obtain ⟨P, hP, h2⟩ := hS i hi
+  have hin : i < n := by
+    have := ((ag_mem_honestIdx ins i).mp hi).1
+    rwa [hn] at this
+  obtain ⟨st', I', cfs, hc, c1, c2, c3, c4, c5, c6, c7, c8, c9, c10, c11, c12, c13, c14, c15, c16⟩ :=
+    ag_genCollect_spec P.st P.inbox (by rw [h2.blen, h2.hn]) (by rw [h2.clen, h2.hn])
+  simp only [h2.hn, h2.ht, h2.hi] at hc c1 c2 c3 c6 c7 c8 c9 c10 c11 c12 c14 c15
+  generalize hops : ((if getN st'.cnt i > 0 then cfs.flatMap (fun (it : Nat) =>
+          [Op.bc none (it : Int), Op.bc none (getI P.st.srow it), Op.bc none (getI P.st.sprow it)]) else []) ++
+        [Op.bc none (n : Int)]) = ops at hc
+  have hs : genStep G ins n t 2 i P.st P.inbox = .ok (st', I', ops, .run) := by
+    show pure (genCollect P.st P.inbox) = _
+    rw [hc]
+    rfl
+  obtain ⟨hout, P', hP', e1, e2, e3, e4, e5, e6, e7, e8, e9⟩ :=
+    ag_honest_round (genStep G ins n t 2) R i P hP h2.hl _ _ _ _ hs
+  subst hops
+  refine ⟨P, st', I', if getN st'.cnt i > 0 then cfs else [], P', hP, h2, hP', ?_, ?_, ?_, e1,
+    ⟨by rw [e4]; exact h2.hl.1, e5, e3, e2⟩, e6.trans c8, fun k hk => e8 k (by rw [c8]; exact hk),
+    c1, c2, c3, c4, c10, c11, c12, c13.trans h2.cplen, ?_, ?_, by rw [c16]; exact h2.sIn⟩
+  · rw [hout]
+    simp only
+    split
+    · exact ag_bcs_triples cfs _ _ n
+    · rfl
+  · split
+    · exact c6
+    · simp
+  · split
+    · exact c7
+    · simp
+  · intro k hk x
+    rw [c14 k x (by rw [h2.cplen]; exact hk), h2.cps k hk x]
+  · intro x hx hxi hmem
+    have hpos : 0 < getN st'.cnt i := by
+      rw [c11 i hin]
+      have h1 : 0 < (rcNews n (bsOf P.inbox x)).count i := List.count_pos_iff.mpr hmem
+      have h2' := ag_le_sum_map ((List.range n).filter (fun y => y ≠ i))
+        (fun y => (rcNews n (bsOf P.inbox y)).count i) x
+        (List.mem_filter.mpr ⟨List.mem_range.mpr hx, by simpa using hxi⟩)
+      omega
+    rw [if_pos hpos]
+    exact (c15 x).mpr ⟨hx, hxi, hmem⟩
+
+theorem ag_round2 (S : Setting G n t ins) (hn64 : n < 2 ^ 64) (hf : n - (honestIdx ins).length ≤ t)
+    (R : List (Party GenSt)) (h : Inv2 G n t ins R) : Inv3 G n t ins (runRound (genStep G ins n t 2) R) := by
+  obtain ⟨hlen, hS, hAg, hX⟩ := h
+  have hG := S.hG
+  have hparty := ag_round2_party (G := G) S.hn R hS
+  have hnh : (List.range n).countP (fun x => !((pinOf ins x).dev1.honest)) ≤ t := by
+    have := ag_countP_nothonest ins
+    rw [S.hn] at this
+    omega
+  refine ⟨by rw [ag_runRound_length, hlen], ?_, ?_, ?_⟩
+  · intro i hi
+    obtain ⟨P, st', I', cfs, P', hP, h2, hP', hout, cl, cx, e1, hl', bl, hb, v1, v2, v3, v4, v5, v6, v7, v8, v9, v10, v11⟩ :=
+      hparty i hi
+    refine ⟨P', hP', ⟨hl', by rw [e1]; exact v1, by rw [e1]; exact v2, by rw [e1]; exact v3, bl, ?_, by rw [e1]; exact v11⟩⟩
+    intro j hj
+    obtain ⟨hj1, -⟩ := (ag_mem_honestIdx ins j).mp hj
+    rw [S.hn] at hj1
+    rw [e1]
+    refine ⟨by rw [v4]; exact (h2.CH j hj).1, ?_, ?_⟩
+    · rw [v6 j hj1, (h2.CH j hj).2, Nat.zero_add]
+      refine le_trans ?_ hnh
+      refine le_trans (ag_sum_le_countP _ _ (fun x => (pinOf ins x).dev1.honest)
+        (fun x _ => ag_rcNews_count_le n _ j) ?_) ?_
+      · intro x hx hxh
+        obtain ⟨hx1, hx2⟩ := List.mem_filter.mp hx
+        have hxn : x < n := List.mem_range.mp hx1
+        have hxi : x ≠ i := by simpa using hx2
+        have hxhon : x ∈ honestIdx ins := (ag_mem_honestIdx ins x).mpr ⟨by rw [S.hn]; exact hxn, hxh⟩
+        obtain ⟨Px, hPx, h2x⟩ := hS x hxhon
+        have := (hX x i Px P hxhon hi hPx hP hxi).2.2.2 j hj1
+        rw [this]
+        exact (h2x.CH j hj).2
+      · exact (List.filter_sublist).countP_le
+    · rw [v7 j]
+      rintro ⟨-, hji, hbad⟩
+      obtain ⟨Pj, hPj, -⟩ := hS j hj
+      have := (hX j i Pj P hj hi hPj hP hji).2.1
+      rw [this] at hbad
+      exact Bool.false_ne_true hbad
+  · intro i i' P1 P1' hi hi' hP1 hP1' k hk hki hki'
+    obtain ⟨P, st', I', cfs, P', hP, h2, hP', hout, cl, cx, e1, hl', bl, hb, v1, v2, v3, v4, v5, v6, v7, v8, v9, v10, v11⟩ :=
+      hparty i hi
+    obtain ⟨Q, stq, Iq, cfq, Q', hQ, hq2, hQ', houtq, clq, cxq, f1, hlq', blq, hbq, w1, w2, w3, w4, w5, w6, w7, w8, w9, w10, w11⟩ :=
+      hparty i' hi'
+    rw [hP'] at hP1
+    rw [hQ'] at hP1'
+    injection hP1 with hP1
+    injection hP1' with hP1'
+    subst hP1 hP1'
+    rw [hb k hk, hbq k hk, v5 k hk hki, w5 k hk hki', hAg i i' P Q hi hi' hP hQ k hk hki hki']
+    simp [hki, hki']
+  · intro i i' P1 P1' hi hi' hP1 hP1' hne
+    obtain ⟨P, st', I', cfs, P', hP, h2, hP', hout, cl, cx, e1, hl', bl, hb, v1, v2, v3, v4, v5, v6, v7, v8, v9, v10, v11⟩ :=
+      hparty i hi
+    obtain ⟨Q, stq, Iq, cfq, Q', hQ, hq2, hQ', houtq, clq, cxq, f1, hlq', blq, hbq, w1, w2, w3, w4, w5, w6, w7, w8, w9, w10, w11⟩ :=
+      hparty i' hi'
+    rw [hP'] at hP1
+    rw [hQ'] at hP1'
+    injection hP1 with hP1
+    injection hP1' with hP1'
+    subst hP1 hP1'
+    obtain ⟨hi1, -⟩ := (ag_mem_honestIdx ins i).mp hi
+    rw [S.hn] at hi1
+    obtain ⟨hi1', -⟩ := (ag_mem_honestIdx ins i').mp hi'
+    rw [S.hn] at hi1'
+    obtain ⟨x1, x2, x3, x4⟩ := hX i i' P Q hi hi' hP hQ hne
+    obtain ⟨y1, y2, y3, y4⟩ := hX i' i Q P hi' hi hQ hP (Ne.symm hne)
+    have hstream : bsOf Q'.inbox i =
+        cfs.flatMap (fun (it : Nat) => [((none : Tag), (it : Int)),
+          (none, getI P.st.srow it), (none, getI P.st.sprow it)]) ++ [((none : Tag), (n : Int))] := by
+      rw [hbq i hi1, w5 i hi1 hne, x3, hout]
+      simp [hne]
+    refine ⟨?_, ?_, ?_, ?_, ?_⟩
+    · intro k hk hki hki'
+      rw [e1, f1, v4, w4]
+      refine ⟨x1 k hk hki hki', ?_⟩
+      rw [v7 k, w7 k, hAg i i' P Q hi hi' hP hQ k hk hki hki']
+      simp [hk, hki, hki']
+    · intro w hw
+      rw [e1, f1, v6 w hw, w6 w hw, ← x4 w hw, ← y4 w hw]
+      rw [ag_sum_filter_ne (List.range n) List.nodup_range i (List.mem_range.mpr hi1),
+        ag_sum_filter_ne (List.range n) List.nodup_range i' (List.mem_range.mpr hi1')]
+      congr 1
+      apply List.map_congr_left
+      intro x hx
+      have hxn : x < n := List.mem_range.mp hx
+      by_cases hxi : x = i
+      · subst hxi
+        simp [hne]
+      · by_cases hxi' : x = i'
+        · subst hxi'
+          simp [hxi]
+        · simp only [hxi, hxi', if_false]
+          rw [hAg i i' P Q hi hi' hP hQ x hxn hxi hxi']
+    · have : Fact (Nat.Prime G.q.natAbs) := fact_q hG
+      obtain ⟨ha, hb', hla, hlb⟩ := ag_coef_range (G := G) t (pinOf ins i) (S.hc i hi)
+      have hra := ag_raS_honest (G := G) n hn64 (comOf G t (pinOf ins i)) (fun it => getI P.st.srow it)
+        (fun it => getI P.st.sprow it) cfs (n + 1) (by omega) (by
+          intro it hit
+          have hitn := cx it hit
+          rw [h2.srow, h2.sprow, ag_getI_map_range _ _ it hitn, ag_getI_map_range _ _ it hitn]
+          obtain ⟨l, r, e1, e2, e3⟩ := share_check_F hG _ _ (hla.trans hlb.symm) ha hb' _
+            (ag_comOf_spec hG t (pinOf ins i) (S.hc i hi)).1 (it + 1)
+          exact ⟨hitn, (ag_sh_range hG t _ it).1, (ag_sh_range hG t _ it).2.1, l, e1, by rw [e2, e3]⟩)
+      simp [raBad, hstream, hra]
+    · intro k hk hki hki' c
+      rw [e1, f1, v9 k hk c, w9 k hk c]
+      have hp1 : 0 < getN P.st.cnt k ↔ k ∈ rcNews n (bsOf Q.inbox i) := by
+        rw [← x4 k hk]; exact List.count_pos_iff
+      have hp2 : 0 < getN Q.st.cnt k ↔ k ∈ rcNews n (bsOf P.inbox i') := by
+        rw [← y4 k hk]; exact List.count_pos_iff
+      by_cases hci : c = i
+      · subst hci
+        simp [hne, hp1, hi1]
+      · by_cases hci' : c = i'
+        · subst hci'
+          simp [hci, hp2, hi1']
+        · simp only [hci, hci', false_and, false_or, ne_eq, not_false_eq_true, true_and]
+          constructor
+          · rintro ⟨hc, hm⟩
+            exact ⟨hc, by rw [← hAg i i' P Q hi hi' hP hQ c hc hci hci']; exact hm⟩
+          · rintro ⟨hc, hm⟩
+            exact ⟨hc, by rw [hAg i i' P Q hi hi' hP hQ c hc hci hci']; exact hm⟩
+    · intro c
+      rw [f1, w9 i hi1 c, hstream, ag_anS_honest n hn64 _ _ cfs (n + 1) (by omega) cx []]
+      rintro (⟨-, hpos⟩ | ⟨hc, hci', hmem⟩)
+      · rw [(hq2.CH i hi).2] at hpos
+        exact absurd hpos (Nat.lt_irrefl 0)
+      · by_cases hci : c = i
+        · subst hci
+          have h0 : (rcNews n (bsOf Q.inbox c)).count c = 0 := by
+            rw [x4 c hi1]; exact (h2.CH c hi).2
+          exact absurd (List.count_pos_iff.mpr hmem) (by omega)
+        · rw [← hAg i i' P Q hi hi' hP hQ c hc hci hci'] at hmem
+          simpa using v10 c hc hci hmem
+
 end Tmcg.DkgP
